@@ -37,24 +37,32 @@ Qed.
 
 (* induction over values with the nested lists *)
 Section ValueInd.
-  Variable P : value -> Prop.
-  Hypothesis Hatom : forall a, P (VAtom a).
-  Hypothesis Hlist : forall xs, Forall P xs -> P (VList xs).
-  Hypothesis Htuple : forall xs, Forall P xs -> P (VTuple xs).
-  Hypothesis Hdict : forall kvs, Forall (fun kv => P (snd kv)) kvs -> P (VDict kvs).
-  Hypothesis Hset : forall xs, P (VSet xs).
-  Hypothesis Hfrozen : forall xs, P (VFrozen xs).
-  Fixpoint value_ind' (v : value) : P v :=
+  Variable P : xvalue -> Prop.
+  Hypothesis Hatom : forall a, P (XAtom a).
+  Hypothesis Hlist : forall xs, Forall P xs -> P (XList xs).
+  Hypothesis Htuple : forall xs, Forall P xs -> P (XTuple xs).
+  Hypothesis Hdict : forall kvs, Forall (fun kv => P (snd kv)) kvs -> P (XDict kvs).
+  Hypothesis Hset : forall xs, P (XSet xs).
+  Hypothesis Hfrozen : forall xs, P (XFrozen xs).
+  Hypothesis Hobj : forall c avs, Forall (fun av => P (snd av)) avs -> P (XObj c avs).
+  Hypothesis Hnamed : forall c avs, Forall (fun av => P (snd av)) avs -> P (XNamed c avs).
+  Hypothesis Hopaque : forall c, P (XOpaque c).
+  Fixpoint value_ind' (v : xvalue) : P v :=
     match v with
-    | VAtom a => Hatom a
-    | VList xs => Hlist xs ((fix go (l : list value) : Forall P l :=
+    | XAtom a => Hatom a
+    | XList xs => Hlist xs ((fix go (l : list xvalue) : Forall P l :=
                                match l with [] => Forall_nil _ | x :: r => Forall_cons _ (value_ind' x) (go r) end) xs)
-    | VTuple xs => Htuple xs ((fix go (l : list value) : Forall P l :=
+    | XTuple xs => Htuple xs ((fix go (l : list xvalue) : Forall P l :=
                                match l with [] => Forall_nil _ | x :: r => Forall_cons _ (value_ind' x) (go r) end) xs)
-    | VDict kvs => Hdict kvs ((fix go (l : list (atom * value)) : Forall (fun kv => P (snd kv)) l :=
+    | XDict kvs => Hdict kvs ((fix go (l : list (atom * xvalue)) : Forall (fun kv => P (snd kv)) l :=
                                match l with [] => Forall_nil _ | x :: r => Forall_cons _ (value_ind' (snd x)) (go r) end) kvs)
-    | VSet xs => Hset xs
-    | VFrozen xs => Hfrozen xs
+    | XSet xs => Hset xs
+    | XFrozen xs => Hfrozen xs
+    | XObj c avs => Hobj c avs ((fix go (l : list (pystr * xvalue)) : Forall (fun av => P (snd av)) l :=
+                               match l with [] => Forall_nil _ | x :: r => Forall_cons _ (value_ind' (snd x)) (go r) end) avs)
+    | XNamed c avs => Hnamed c avs ((fix go (l : list (pystr * xvalue)) : Forall (fun av => P (snd av)) l :=
+                               match l with [] => Forall_nil _ | x :: r => Forall_cons _ (value_ind' (snd x)) (go r) end) avs)
+    | XOpaque c => Hopaque c
     end.
 End ValueInd.
 
@@ -64,7 +72,7 @@ Proof.
   unfold mem_atom. intros k l H. apply existsb_exists. exists k. split; auto using py_eq_refl.
 Qed.
 
-Lemma find_key_in : forall (kvs : list (atom * value)) k v,
+Lemma find_key_in : forall (kvs : list (atom * xvalue)) k v,
   nodup_atoms (map fst kvs) = true -> In (k, v) kvs ->
   find (fun kv => atom_eqb (fst kv) k) kvs = Some (k, v).
 Proof.
@@ -79,25 +87,60 @@ Proof.
     + apply IH; auto.
 Qed.
 
-Lemma find_key_some : forall (kvs : list (atom * value)) k kv,
+Lemma find_key_some : forall (kvs : list (atom * xvalue)) k kv,
   find (fun kv => atom_eqb (fst kv) k) kvs = Some kv -> In kv kvs /\ fst kv = k.
 Proof.
   intros kvs k kv H. apply find_some in H. destruct H as [H1 H2]. split; auto using atom_eqb_eq.
 Qed.
 
-Lemma wf_dict_inv : forall kvs, wf (VDict kvs) = true ->
-  nodup_atoms (map fst kvs) = true /\ forall kv, In kv kvs -> wf (snd kv) = true.
+Lemma wf_dict_inv : forall kvs, xwf (XDict kvs) = true ->
+  nodup_atoms (map fst kvs) = true /\ forall kv, In kv kvs -> xwf (snd kv) = true.
 Proof.
   intros kvs H. cbn in H. apply andb_true_iff in H. destruct H as [H1 H2]. split; auto.
   intros kv Hin. rewrite forallb_forall in H2. auto.
 Qed.
 
-Lemma wf_list_inv : forall xs, forallb wf xs = true -> forall x, In x xs -> wf x = true.
+Lemma wf_list_inv : forall xs, forallb xwf xs = true -> forall x, In x xs -> xwf x = true.
 Proof. intros xs H x Hin. rewrite forallb_forall in H. auto. Qed.
 
+(* an instance with pairwise distinct attribute names maps a name to the attribute that holds it *)
+Lemma find_attr_in : forall (avs : list (pystr * xvalue)) n v,
+  nodup_strs (map fst avs) = true -> In (n, v) avs ->
+  find (fun av => pystr_eqb (fst av) n) avs = Some (n, v).
+Proof.
+  induction avs as [|[n0 v0] r IH]; intros n v Hnd Hin; [destruct Hin|].
+  cbn in Hnd. apply andb_true_iff in Hnd. destruct Hnd as [Hnot Hnd].
+  cbn [find fst]. destruct Hin as [Heq|Hin].
+  - inversion Heq; subst. rewrite pystr_eqb_refl. reflexivity.
+  - destruct (pystr_eqb n0 n) eqn:E.
+    + apply pystr_eqb_eq in E. subst n0. apply negb_true_iff in Hnot.
+      assert (Hm : existsb (pystr_eqb n) (map fst r) = true).
+      { apply existsb_exists. exists n. split; [apply (in_map fst _ _ Hin)|apply pystr_eqb_refl]. }
+      congruence.
+    + apply IH; auto.
+Qed.
+
+Lemma find_attr_some : forall (avs : list (pystr * xvalue)) n av,
+  find (fun av => pystr_eqb (fst av) n) avs = Some av -> In av avs /\ fst av = n.
+Proof.
+  intros avs n av H. apply find_some in H. destruct H as [H1 H2]. split; auto using pystr_eqb_eq.
+Qed.
+
+Lemma wf_attrs_inv : forall avs,
+  nodup_strs (map fst avs) && forallb (fun av => xwf (snd av)) avs = true ->
+  nodup_strs (map fst avs) = true /\ forall av, In av avs -> xwf (snd av) = true.
+Proof.
+  intros avs H. apply andb_true_iff in H. destruct H as [H1 H2]. split; auto.
+  intros av Hin. rewrite forallb_forall in H2. auto.
+Qed.
+
 Lemma nth_error_map_atom : forall (xs : list atom) i,
-  nth_error (map VAtom xs) i = option_map VAtom (nth_error xs i).
+  nth_error (map XAtom xs) i = option_map XAtom (nth_error xs i).
 Proof. induction xs as [|a r IH]; destruct i; cbn; auto. Qed.
+
+(* the attributes __search_obj iterates over: an instance's / a named tuple's *)
+Definition obj_attrs (w : xvalue) : option (list (pystr * xvalue)) :=
+  match w with XObj _ avs | XNamed _ avs => Some avs | _ => None end.
 
 Section Proofs.
   Variable slower : pystr -> pystr.
@@ -146,18 +189,23 @@ Section Proofs.
   Notation matches_spec_doc := (matches_spec_doc slower brepr re_search excl_re c cs it).
   Notation paths_spec := (paths_spec slower brepr re_search excl_re re_text c cs it).
   Notation paths_spec_doc := (paths_spec_doc slower brepr re_search excl_re re_text c cs it).
+  Notation unprocessed_spec := (unprocessed_spec slower brepr excl_re c cs it).
   Notation k16_guard := (k16_guard c).
   Notation k16b_guard := (k16b_guard brepr excl_re c).
 
   (* what the search emits AT one location (p, w), not counting what it emits
      below it *)
-  Inductive local_ev (p : path) (w : value) : event -> Prop :=
+  Inductive local_ev (p : path) (w : xvalue) : event -> Prop :=
   | LValue : leaf_match w = true -> local_ev p w (EvValue p w)
   | LAttr : forall n, In n (attrs_of w) -> text_match (attr_text p n) = true ->
                       local_ev p w (EvAttr p n)
-  | LPath : forall kvs k ch, w = VDict kvs -> In (k, ch) kvs ->
+  | LPath : forall kvs k ch, w = XDict kvs -> In (k, ch) kvs ->
                              path_match (p ++ [SKey k]) = true ->
-                             local_ev p w (EvPath (p ++ [SKey k]) ch).
+                             local_ev p w (EvPath (p ++ [SKey k]) ch)
+  | LAPath : forall avs n ch, obj_attrs w = Some avs -> In (n, ch) avs ->
+                              path_match (p ++ [SAttr n]) = true ->
+                              local_ev p w (EvPath (p ++ [SAttr n]) ch)
+  | LUnproc : is_opaque w = true -> local_ev p w (EvUnproc p).
 
   (* ---------- the leaf comparers ---------- *)
 
@@ -178,7 +226,7 @@ Section Proofs.
 
   Lemma search_str_iff : forall isb s p ev,
     In ev (search_str isb s p) <->
-    str_match isb s = true /\ ev = EvValue p (VAtom (if isb then ABytes s else AStr s)).
+    str_match isb s = true /\ ev = EvValue p (XAtom (if isb then ABytes s else AStr s)).
   Proof.
     intros isb s p ev. unfold SearchModel.search_str, SearchSpec.str_match.
     destruct it as [[| | | |i|i]|b|w]; try (crush; fail).
@@ -191,7 +239,7 @@ Section Proofs.
 
   Lemma search_numbers_iff : forall a p ev,
     In ev (search_numbers a p) <->
-    num_match a = true /\ ev = EvValue p (VAtom a).
+    num_match a = true /\ ev = EvValue p (XAtom a).
   Proof.
     intros a p ev. unfold SearchModel.search_numbers, SearchSpec.num_match, eq_item.
     destruct it as [b|[|]|w].
@@ -214,9 +262,9 @@ Section Proofs.
   Qed.
 
   Lemma local_ev_atom : forall p a ev,
-    local_ev p (VAtom a) ev <->
-    (atom_match a = true /\ ev = EvValue p (VAtom a))
-    \/ (exists n, In n (attrs_of (VAtom a)) /\ text_match (attr_text p n) = true /\ ev = EvAttr p n).
+    local_ev p (XAtom a) ev <->
+    (atom_match a = true /\ ev = EvValue p (XAtom a))
+    \/ (exists n, In n (attrs_of (XAtom a)) /\ text_match (attr_text p n) = true /\ ev = EvAttr p n).
   Proof.
     intros p a ev. split.
     - intro H. inversion H; subst; auto; try discriminate.
@@ -229,7 +277,7 @@ Section Proofs.
   Lemma py_eq_none : forall b, py_eq b ANone = true <-> b = ANone.
   Proof. intro b. destruct b; cbn; intuition discriminate. Qed.
 
-  Lemma attrs_of_notstr : forall a, is_strlike a = false -> attrs_of (VAtom a) = [].
+  Lemma attrs_of_notstr : forall a, is_strlike a = false -> attrs_of (XAtom a) = [].
   Proof. intros a H. unfold SearchSpec.attrs_of. destruct obj_searched; auto. destruct a; try discriminate; auto. Qed.
 
   Lemma attrs_of_unsearched : forall v, obj_searched = false -> attrs_of v = [].
@@ -237,7 +285,7 @@ Section Proofs.
 
   (* a str / bytes that reaches __search_obj (item None or a container) *)
   Lemma search_obj_str_iff : forall a p ev, is_strlike a = true -> obj_searched = true ->
-    (In ev (search_obj_atom a p) <-> local_ev p (VAtom a) ev).
+    (In ev (search_obj_atom a p) <-> local_ev p (XAtom a) ev).
   Proof.
     intros a p ev Ha Hos. rewrite local_ev_atom. unfold SearchModel.search_obj_atom.
     assert (Heq : eq_item it a = false).
@@ -246,12 +294,12 @@ Section Proofs.
     { destruct a; try discriminate; cbn; unfold SearchSpec.str_match; destruct it as [[| | | | |]|b|w]; try discriminate; auto. }
     rewrite Heq, Hm. cbn [app].
     assert (Hev : In ev (match a with AStr _ => attr_events str_attrs p | ABytes _ => attr_events bytes_attrs p | _ => [] end)
-                  <-> exists n, In n (attrs_of (VAtom a)) /\ text_match (attr_text p n) = true /\ ev = EvAttr p n).
+                  <-> exists n, In n (attrs_of (XAtom a)) /\ text_match (attr_text p n) = true /\ ev = EvAttr p n).
     { unfold SearchSpec.attrs_of. rewrite Hos. destruct a; try discriminate; rewrite attr_events_iff; tauto. }
     rewrite Hev. crush.
   Qed.
 
-  Lemma search_leaf_iff : forall a p ev, In ev (search_leaf a p) <-> local_ev p (VAtom a) ev.
+  Lemma search_leaf_iff : forall a p ev, In ev (search_leaf a p) <-> local_ev p (XAtom a) ev.
   Proof.
     intros a p ev. unfold SearchModel.search_leaf.
     destruct (is_strlike a) eqn:Hsl.
@@ -300,19 +348,19 @@ Section Proofs.
   Lemma py_eq_bytes : forall b t, py_eq b (ABytes t) = true -> exists i, b = ABytes i /\ pystr_eqb i t = true.
   Proof. intros b t. destruct b; cbn; intro H; try discriminate. eauto. Qed.
 
-  Lemma shortcut_atom : forall x, atom_item = true -> shortcut x = true -> exists a, x = VAtom a.
+  Lemma shortcut_atom : forall x, atom_item = true -> shortcut x = true -> exists a, x = XAtom a.
   Proof.
     intros x Hai H. unfold SearchModel.shortcut in H. apply andb_true_iff in H. destruct H as [_ H].
     unfold thing_eq_item in H. destruct it as [b|b|w]; try discriminate;
       destruct x; try discriminate; eauto.
   Qed.
 
-  Lemma shortcut_facts : forall a, atom_item = true -> shortcut (VAtom a) = true ->
-    atom_match a = true /\ attrs_of (VAtom a) = [].
+  Lemma shortcut_facts : forall a, atom_item = true -> shortcut (XAtom a) = true ->
+    atom_match a = true /\ attrs_of (XAtom a) = [].
   Proof.
     intros a Hai H. unfold SearchModel.shortcut in H. apply andb_true_iff in H. destruct H as [_ H].
     unfold thing_eq_item, eq_item in H.
-    assert (Hat : attrs_of (VAtom a) = []).
+    assert (Hat : attrs_of (XAtom a) = []).
     { destruct (is_strlike a) eqn:Hs; [|apply attrs_of_notstr; auto]. apply attrs_of_unsearched.
       unfold SearchSpec.obj_searched. destruct it as [[| | | | |]|b|w]; try discriminate; auto.
       destruct a; try discriminate; destruct cs; discriminate. }
@@ -345,16 +393,16 @@ Section Proofs.
 
   Lemma thing_events_iff : forall srch x p' ev,
     In ev (thing_events srch x p') <->
-    skip_this (type_of x) p' = false /\
+    skip_this (xtype_of x) p' = false /\
     ((shortcut x = true /\ ev = EvValue p' x) \/ (shortcut x = false /\ In ev (srch p'))).
   Proof.
     intros srch x p' ev. unfold SearchModel.thing_events.
-    destruct (skip_this (type_of x) p'); [crush|]. destruct (shortcut x); crush.
+    destruct (skip_this (xtype_of x) p'); [crush|]. destruct (shortcut x); crush.
   Qed.
 
   (* ---------- the traversal ---------- *)
 
-  Definition spec_ev (obj : value) (pre : path) (ev : event) : Prop :=
+  Definition spec_ev (obj : xvalue) (pre : path) (ev : event) : Prop :=
     item_excl = false /\
     exists rest w, get_at obj rest = Some w /\
       ((vis true pre obj rest = true /\ local_ev (pre ++ rest) w ev)
@@ -370,32 +418,32 @@ Section Proofs.
   Lemma vis_nil : forall e pre obj, vis e pre obj [] = negb (path_excl pre).
   Proof. intros. cbn. apply andb_true_r. Qed.
 
-  Lemma child_atom : forall a s, child (VAtom a) s = None.
+  Lemma child_atom : forall a s, child (XAtom a) s = None.
   Proof. intros a s. destruct s; reflexivity. Qed.
 
-  Lemma get_at_atom : forall a rest w, get_at (VAtom a) rest = Some w -> rest = [] /\ w = VAtom a.
+  Lemma get_at_atom : forall a rest w, get_at (XAtom a) rest = Some w -> rest = [] /\ w = XAtom a.
   Proof.
     intros a rest w H. destruct rest as [|s r]; cbn [get_at] in H.
     - inversion H. auto.
     - rewrite child_atom in H. discriminate.
   Qed.
 
-  Lemma search_atom_iff : forall a pre ev, In ev (search_atom a pre) <-> spec_ev (VAtom a) pre ev.
+  Lemma search_atom_iff : forall a pre ev, In ev (search_atom a pre) <-> spec_ev (XAtom a) pre ev.
   Proof.
     intros a pre ev. unfold SearchModel.search_atom, SearchModel.skip_item, spec_ev. split.
     - destruct (path_excl pre) eqn:E1; [intros []|]. destruct item_excl eqn:E2; [intros []|].
       cbn [orb]. intro H. apply search_leaf_iff in H. split; auto.
-      exists [], (VAtom a). split; [reflexivity|]. left. rewrite vis_nil, E1, app_nil_r. auto.
+      exists [], (XAtom a). split; [reflexivity|]. left. rewrite vis_nil, E1, app_nil_r. auto.
     - intros [Hi [rest [w [Hg HH]]]]. apply get_at_atom in Hg. destruct Hg; subst.
       rewrite !vis_nil in HH. destruct HH as [[Hv Hl]|[Hv1 [Hv2 _]]]; [|congruence].
       apply negb_true_iff in Hv. rewrite Hv, Hi. cbn [orb]. apply search_leaf_iff.
       rewrite app_nil_r in Hl. exact Hl.
   Qed.
 
-  Lemma seq_case : forall (obj : value) (ys : list value) (srch : value -> path -> list event)
+  Lemma seq_case : forall (obj : xvalue) (ys : list xvalue) (srch : xvalue -> path -> list event)
                           (evs : path -> list event),
     (forall i, child obj (SIdx i) = nth_error ys i) ->
-    (forall k, child obj (SKey k) = None) ->
+    (forall s, step_is_idx s = false -> child obj s = None) ->
     (forall p ev, ~ local_ev p obj ev) ->
     (forall pre ev, In ev (evs pre) <->
                     exists i x, nth_error ys i = Some x /\ In ev (thing_events (srch x) x (pre ++ [SIdx i]))) ->
@@ -419,12 +467,13 @@ Section Proofs.
     - intros [Hi [rest [w [Hg HH]]]]. destruct rest as [|s r].
       + cbn in Hg. inversion Hg; subst w. rewrite !vis_nil in HH.
         destruct HH as [[_ Hl]|[Hv1 [Hv2 _]]]; [|congruence]. exfalso. eapply Hloc; eauto.
-      + cbn [get_at SearchSpec.vis] in Hg, HH. destruct s as [k|i].
-        { rewrite Hkey in Hg. discriminate. }
+      + cbn [get_at SearchSpec.vis] in Hg, HH. destruct s as [k|i|n].
+        { rewrite Hkey in Hg by reflexivity. discriminate. }
+        2:{ rewrite Hkey in Hg by reflexivity. discriminate. }
         rewrite Hidx in Hg, HH. destruct (nth_error ys i) as [x|] eqn:Hn; [|discriminate].
         cbn [step_is_idx andb] in HH.
         destruct (path_excl pre) eqn:E1; [destruct HH as [[Hv _]|[Hv _]]; discriminate|].
-        destruct (ty_excl (type_of x)) eqn:Hty; [destruct HH as [[Hv _]|[Hv _]]; discriminate|].
+        destruct (ty_excl (xtype_of x)) eqn:Hty; [destruct HH as [[Hv _]|[Hv _]]; discriminate|].
         cbn [negb andb orb] in HH. rewrite Hi. cbn [orb]. apply Hevs. exists i, x. split; auto.
         apply thing_events_iff. destruct (shortcut x) eqn:Hsc.
         * cbn [negb andb orb] in HH. destruct HH as [[Hv _]|[Hv1 [_ Hev]]]; [discriminate|].
@@ -440,7 +489,7 @@ Section Proofs.
   Qed.
 
   Definition iter_list (pre : path) :=
-    fix go (xs : list value) (i : nat) : list event :=
+    fix go (xs : list xvalue) (i : nat) : list event :=
       match xs with
       | [] => []
       | x :: r => (thing_events (search x) x (pre ++ [SIdx i]) ++ go r (S i))%list
@@ -449,32 +498,46 @@ Section Proofs.
     fix go (xs : list atom) (i : nat) : list event :=
       match xs with
       | [] => []
-      | a :: r => (thing_events (search_atom a) (VAtom a) (pre ++ [SIdx i]) ++ go r (S i))%list
+      | a :: r => (thing_events (search_atom a) (XAtom a) (pre ++ [SIdx i]) ++ go r (S i))%list
       end.
-  Definition iter_dict (pre : path) :=
-    fix go (kvs : list (atom * value)) : list event :=
-      match kvs with
+  (* the loop of __search_dict over the entries of a dictionary (mk = SKey) / the attributes of
+     an instance or named tuple (mk = SAttr) *)
+  Definition iter_ent {A : Type} (mk : A -> step) (pre : path) :=
+    fix go (ents : list (A * xvalue)) : list event :=
+      match ents with
       | [] => []
-      | kv :: r => let p' := (pre ++ [SKey (fst kv)])%list in
-                   (path_event p' (snd kv) ++ search (snd kv) p' ++ go r)%list
+      | e :: r => let p' := (pre ++ [mk (fst e)])%list in
+                  (path_event p' (snd e) ++ search (snd e) p' ++ go r)%list
       end.
+  Definition self_events (obj : xvalue) (pre : path) : list event :=
+    if self_eq it obj then [EvValue pre obj] else [].
 
   Lemma search_list_eq : forall xs pre,
-    search (VList xs) pre = if skip_item pre then [] else iter_list pre xs 0.
+    search (XList xs) pre = if skip_item pre then [] else iter_list pre xs 0.
   Proof. reflexivity. Qed.
   Lemma search_tuple_eq : forall xs pre,
-    search (VTuple xs) pre = if skip_item pre then [] else iter_list pre xs 0.
+    search (XTuple xs) pre = if skip_item pre then [] else iter_list pre xs 0.
   Proof. reflexivity. Qed.
   Lemma search_set_eq : forall xs pre,
-    search (VSet xs) pre = if skip_item pre then [] else iter_atoms pre xs 0.
+    search (XSet xs) pre = if skip_item pre then [] else iter_atoms pre xs 0.
   Proof. reflexivity. Qed.
   Lemma search_frozen_eq : forall xs pre,
-    search (VFrozen xs) pre = if skip_item pre then [] else iter_atoms pre xs 0.
+    search (XFrozen xs) pre = if skip_item pre then [] else iter_atoms pre xs 0.
   Proof. reflexivity. Qed.
   Lemma search_dict_eq : forall kvs pre,
-    search (VDict kvs) pre = if skip_item pre then [] else iter_dict pre kvs.
+    search (XDict kvs) pre = if skip_item pre then [] else ([] ++ iter_ent SKey pre kvs)%list.
   Proof. reflexivity. Qed.
-  Lemma search_atom_eq : forall a pre, search (VAtom a) pre = search_atom a pre.
+  Lemma search_obj_eq : forall cl avs pre,
+    search (XObj cl avs) pre = if skip_item pre then [] else ([] ++ iter_ent SAttr pre avs)%list.
+  Proof. reflexivity. Qed.
+  Lemma search_named_eq : forall cl avs pre,
+    search (XNamed cl avs) pre
+    = if skip_item pre then [] else (self_events (XNamed cl avs) pre ++ iter_ent SAttr pre avs)%list.
+  Proof. reflexivity. Qed.
+  Lemma search_opaque_eq : forall cl pre,
+    search (XOpaque cl) pre = if skip_item pre then [] else [EvUnproc pre].
+  Proof. reflexivity. Qed.
+  Lemma search_atom_eq : forall a pre, search (XAtom a) pre = search_atom a pre.
   Proof. reflexivity. Qed.
 
   Lemma iter_list_in : forall pre xs n ev,
@@ -494,143 +557,272 @@ Section Proofs.
 
   Lemma iter_atoms_in : forall pre xs n ev,
     In ev (iter_atoms pre xs n) <->
-    exists i x, nth_error (map VAtom xs) i = Some x
+    exists i x, nth_error (map XAtom xs) i = Some x
                 /\ In ev (thing_events (search x) x (pre ++ [SIdx (n + i)])).
   Proof.
     intros pre xs. induction xs as [|a r IH]; intros n ev.
     - cbn. split; [intros []|]. intros [i [y [H _]]]. destruct i; discriminate.
     - cbn [iter_atoms map]. rewrite in_app_iff. fold (iter_atoms pre). rewrite IH. split.
       + intros [H|[i [y [Hn H]]]].
-        * exists 0, (VAtom a). rewrite Nat.add_0_r. auto.
+        * exists 0, (XAtom a). rewrite Nat.add_0_r. auto.
         * exists (S i), y. rewrite Nat.add_succ_r. auto.
       + intros [i [y [Hn H]]]. destruct i as [|i].
         * cbn in Hn. inversion Hn; subst y. rewrite Nat.add_0_r in H. auto.
         * right. exists i, y. rewrite Nat.add_succ_r in H. auto.
   Qed.
 
-  Lemma iter_dict_in : forall pre kvs ev,
-    In ev (iter_dict pre kvs) <->
-    exists kv, In kv kvs /\ (In ev (path_event (pre ++ [SKey (fst kv)]) (snd kv))
-                             \/ In ev (search (snd kv) (pre ++ [SKey (fst kv)]))).
+  Lemma iter_ent_in : forall (A : Type) (mk : A -> step) pre (ents : list (A * xvalue)) ev,
+    In ev (iter_ent mk pre ents) <->
+    exists e, In e ents /\ (In ev (path_event (pre ++ [mk (fst e)]) (snd e))
+                             \/ In ev (search (snd e) (pre ++ [mk (fst e)]))).
   Proof.
-    intros pre kvs ev. induction kvs as [|kv r IH].
-    - cbn. split; [intros []|]. intros [kv [[] _]].
-    - cbn [iter_dict]. fold (iter_dict pre). rewrite !in_app_iff, IH. split.
-      + intros [H|[H|[kv' [Hin H]]]].
-        * exists kv. split; [left|]; auto.
-        * exists kv. split; [left|]; auto.
-        * exists kv'. split; [right|]; auto.
-      + intros [kv' [[Heq|Hin] H]].
-        * subst kv'. destruct H; auto.
-        * right. right. exists kv'. auto.
+    intros A mk pre ents ev. induction ents as [|e r IH].
+    - cbn. split; [intros []|]. intros [e [[] _]].
+    - cbn [iter_ent]. fold (iter_ent mk pre). rewrite !in_app_iff, IH. split.
+      + intros [H|[H|[e' [Hin H]]]].
+        * exists e. split; [left|]; auto.
+        * exists e. split; [left|]; auto.
+        * exists e'. split; [right|]; auto.
+      + intros [e' [[Heq|Hin] H]].
+        * subst e'. destruct H; auto.
+        * right. right. exists e'. auto.
   Qed.
 
-  Lemma attrs_of_nonatom : forall w n, In n (attrs_of w) -> exists a, w = VAtom a.
+  Lemma attrs_of_nonatom : forall w n, In n (attrs_of w) -> exists a, w = XAtom a.
   Proof.
     intros w n H. unfold SearchSpec.attrs_of in H.
     destruct obj_searched; [|destruct H].
-    destruct w as [a| | | | |]; try destruct H. eauto.
+    destruct w as [a| | | | | | | |]; try destruct H. eauto.
   Qed.
 
-  Lemma local_ev_shape : forall p w ev, local_ev p w ev ->
-    (exists a, w = VAtom a) \/ (exists kvs, w = VDict kvs).
+  (* lists, tuples and sets emit nothing at their own location *)
+  Lemma local_ev_seq : forall p w ev, local_ev p w ev ->
+    match w with XList _ | XTuple _ | XSet _ | XFrozen _ => False | _ => True end.
   Proof.
-    intros p w ev H. inversion H; subst; eauto.
-    - destruct w; try discriminate; eauto.
-    - left. eapply attrs_of_nonatom; eauto.
+    intros p w ev H. destruct w; auto; inversion H; subst; try discriminate;
+      match goal with Hn : In _ (attrs_of _) |- _ => apply attrs_of_nonatom in Hn; destruct Hn; discriminate end.
   Qed.
 
-  Theorem search_iff : forall obj, wf obj = true ->
+  (* the generic "keyed" case: a dictionary, an instance, a named tuple *)
+  Lemma ent_case : forall (A : Type) (mk : A -> step) (obj : xvalue) (ents : list (A * xvalue))
+                          (self : path -> list event),
+    (forall a, step_is_idx (mk a) = false) ->
+    (forall s ch, child obj s = Some ch -> exists a, s = mk a /\ In (a, ch) ents) ->
+    (forall a ch, In (a, ch) ents -> child obj (mk a) = Some ch) ->
+    (forall p ev, local_ev p obj ev <->
+                  (leaf_match obj = true /\ ev = EvValue p obj)
+                  \/ (exists a ch, In (a, ch) ents /\ path_match (p ++ [mk a]) = true
+                                   /\ ev = EvPath (p ++ [mk a]) ch)) ->
+    (forall p ev, In ev (self p) <-> leaf_match obj = true /\ ev = EvValue p obj) ->
+    (forall e, In e ents -> forall p' ev, In ev (search (snd e) p') <-> spec_ev (snd e) p' ev) ->
+    forall pre ev, In ev (if skip_item pre then [] else (self pre ++ iter_ent mk pre ents)%list)
+                   <-> spec_ev obj pre ev.
+  Proof.
+    intros A mk obj ents self Hmk Hch1 Hch2 Hloc Hself IH pre ev. unfold SearchModel.skip_item. split.
+    - destruct (path_excl pre) eqn:E1; [intros []|]. destruct item_excl eqn:E2; [intros []|].
+      cbn [orb]. rewrite in_app_iff. intros [H|H].
+      + apply Hself in H. split; auto. exists [], obj. split; [reflexivity|]. left.
+        rewrite vis_nil, E1, app_nil_r. split; auto. apply Hloc. left. exact H.
+      + apply iter_ent_in in H. destruct H as [[a ch] [Hin H]]. cbn [fst snd] in H.
+        split; auto. destruct H as [H|H].
+        * unfold SearchModel.path_event in H. apply path_test_iff in H.
+          exists [], obj. split; [reflexivity|]. left. rewrite vis_nil, E1, app_nil_r.
+          split; auto. destruct H as [H1 [H2|[]]]; subst ev. apply Hloc. right. eauto.
+        * apply (IH (a, ch) Hin) in H. destruct H as [_ [rest [w [Hg HH]]]].
+          cbn [snd] in Hg, HH.
+          exists (mk a :: rest), w. cbn [get_at SearchSpec.vis].
+          rewrite (Hch2 a ch Hin), (Hmk a). cbn [andb negb].
+          rewrite E1. cbn [negb andb]. split; auto.
+          rewrite <- app_assoc in HH. cbn [app] in HH. exact HH.
+    - intros [Hi [rest [w [Hg HH]]]]. destruct rest as [|s r].
+      + cbn in Hg. inversion Hg; subst w. rewrite !vis_nil in HH.
+        destruct HH as [[Hv Hl]|[Hv1 [Hv2 _]]]; [|congruence].
+        apply negb_true_iff in Hv.
+        rewrite Hv, Hi. cbn [orb]. rewrite app_nil_r in Hl. rewrite in_app_iff.
+        apply Hloc in Hl. destruct Hl as [Hl|[a [ch [Hin [Hpm Hev]]]]].
+        * left. apply Hself. exact Hl.
+        * right. apply iter_ent_in. exists (a, ch). split; auto. left. cbn [fst snd].
+          unfold SearchModel.path_event. apply path_test_iff. split; [exact Hpm|left; auto].
+      + cbn [get_at SearchSpec.vis] in Hg, HH.
+        destruct (child obj s) as [ch|] eqn:Hc; [|discriminate].
+        destruct (Hch1 s ch Hc) as [a [Hs Hin]]. subst s. rewrite (Hmk a) in HH.
+        cbn [andb negb] in HH.
+        destruct (path_excl pre) eqn:E1; [destruct HH as [[Hv _]|[Hv _]]; discriminate|].
+        cbn [negb andb] in HH. rewrite Hi. cbn [orb]. rewrite in_app_iff. right.
+        apply iter_ent_in. exists (a, ch). split; auto. right. cbn [fst snd].
+        apply (IH (a, ch) Hin). split; auto. exists r, w. split; auto.
+        rewrite <- app_assoc. cbn [app]. exact HH.
+  Qed.
+
+  Lemma child_dict_some : forall kvs s ch, nodup_atoms (map fst kvs) = true ->
+    child (XDict kvs) s = Some ch -> exists k, s = SKey k /\ In (k, ch) kvs.
+  Proof.
+    intros kvs s ch Hnd H. destruct s as [k|i|n]; cbn [child] in H; try discriminate.
+    destruct (find _ kvs) as [kv|] eqn:Hf; [|discriminate]. apply find_key_some in Hf.
+    destruct Hf as [Hin Hk]. cbn in H. inversion H; subst. exists (fst kv). split; auto.
+    destruct kv; exact Hin.
+  Qed.
+
+  Lemma child_attrs_some : forall w avs s ch, obj_attrs w = Some avs ->
+    child w s = Some ch -> exists n, s = SAttr n /\ In (n, ch) avs.
+  Proof.
+    intros w avs s ch Hw H. destruct w; try discriminate; cbn in Hw; inversion Hw; subst;
+      destruct s as [k|i|n]; cbn [child] in H; try discriminate;
+      (destruct (find _ avs) as [av|] eqn:Hf; [|discriminate]); apply find_attr_some in Hf;
+      destruct Hf as [Hin Hk]; cbn in H; inversion H; subst; exists (fst av); (split; auto);
+      destruct av; exact Hin.
+  Qed.
+
+  Lemma child_attrs_in : forall w avs n ch, obj_attrs w = Some avs -> nodup_strs (map fst avs) = true ->
+    In (n, ch) avs -> child w (SAttr n) = Some ch.
+  Proof.
+    intros w avs n ch Hw Hnd Hin. destruct w; try discriminate; cbn in Hw; inversion Hw; subst;
+      cbn [child]; rewrite (find_attr_in avs n ch Hnd Hin); reflexivity.
+  Qed.
+
+  Lemma local_ev_dict : forall kvs p ev,
+    local_ev p (XDict kvs) ev <->
+    (leaf_match (XDict kvs) = true /\ ev = EvValue p (XDict kvs))
+    \/ (exists k ch, In (k, ch) kvs /\ path_match (p ++ [SKey k]) = true /\ ev = EvPath (p ++ [SKey k]) ch).
+  Proof.
+    intros kvs p ev. split.
+    - intro H. inversion H; subst; try discriminate.
+      + apply attrs_of_nonatom in H0. destruct H0; discriminate.
+      + inversion H0; subst. right. eauto.
+    - intros [[H _]|[k [ch [H1 [H2 H3]]]]]; [discriminate|]. subst ev. eapply LPath; eauto.
+  Qed.
+
+  Lemma local_ev_attrs : forall w avs p ev, obj_attrs w = Some avs ->
+    (local_ev p w ev <->
+     (leaf_match w = true /\ ev = EvValue p w)
+     \/ (exists n ch, In (n, ch) avs /\ path_match (p ++ [SAttr n]) = true /\ ev = EvPath (p ++ [SAttr n]) ch)).
+  Proof.
+    intros w avs p ev Hw. split.
+    - intro H. inversion H; subst.
+      + left. auto.
+      + apply attrs_of_nonatom in H0. destruct H0; subst; discriminate.
+      + discriminate.
+      + rewrite Hw in H0. inversion H0; subst. right. eauto.
+      + destruct w; discriminate.
+    - intros [[H1 H2]|[n [ch [H1 [H2 H3]]]]]; subst ev.
+      + apply LValue. exact H1.
+      + eapply LAPath; eauto.
+  Qed.
+
+  Lemma local_ev_opaque : forall cl p ev, local_ev p (XOpaque cl) ev <-> ev = EvUnproc p.
+  Proof.
+    intros cl p ev. split.
+    - intro H. inversion H; subst; try discriminate; auto.
+      apply attrs_of_nonatom in H0. destruct H0; discriminate.
+    - intro H. subst. apply LUnproc. reflexivity.
+  Qed.
+
+  Lemma self_events_iff : forall cl avs p ev,
+    In ev (self_events (XNamed cl avs) p) <->
+    leaf_match (XNamed cl avs) = true /\ ev = EvValue p (XNamed cl avs).
+  Proof.
+    intros cl avs p ev. unfold self_events. cbn [SearchSpec.leaf_match].
+    destruct (self_eq it (XNamed cl avs)); cbn [In]; intuition (try discriminate; auto).
+  Qed.
+
+  Theorem search_iff : forall obj, xwf obj = true ->
     forall pre ev, In ev (search obj pre) <-> spec_ev obj pre ev.
   Proof.
-    induction obj as [a|xs IH|xs IH|kvs IH|xs|xs] using value_ind'; intros Hwf pre ev.
+    induction obj as [a|xs IH|xs IH|kvs IH|xs|xs|cl avs IH|cl avs IH|cl] using value_ind'; intros Hwf pre ev.
     - rewrite search_atom_eq. apply search_atom_iff.
     - rewrite search_list_eq.
-      apply (seq_case (VList xs) xs (fun x => search x) (fun pre => iter_list pre xs 0)).
+      apply (seq_case (XList xs) xs (fun x => search x) (fun pre => iter_list pre xs 0)).
       + reflexivity.
-      + reflexivity.
-      + intros p e H. apply local_ev_shape in H. destruct H as [[a H]|[k H]]; discriminate.
+      + intros s Hs. destruct s; try discriminate; reflexivity.
+      + intros p e H. apply local_ev_seq in H. exact H.
       + intros pre' e. apply (iter_list_in pre' xs 0 e).
       + intros x Hin. rewrite Forall_forall in IH. apply IH; auto. eapply wf_list_inv; eauto.
     - rewrite search_tuple_eq.
-      apply (seq_case (VTuple xs) xs (fun x => search x) (fun pre => iter_list pre xs 0)).
+      apply (seq_case (XTuple xs) xs (fun x => search x) (fun pre => iter_list pre xs 0)).
       + reflexivity.
-      + reflexivity.
-      + intros p e H. apply local_ev_shape in H. destruct H as [[a H]|[k H]]; discriminate.
+      + intros s Hs. destruct s; try discriminate; reflexivity.
+      + intros p e H. apply local_ev_seq in H. exact H.
       + intros pre' e. apply (iter_list_in pre' xs 0 e).
       + intros x Hin. rewrite Forall_forall in IH. apply IH; auto. eapply wf_list_inv; eauto.
     - (* dict *)
       rewrite search_dict_eq. destruct (wf_dict_inv kvs Hwf) as [Hnd Hwfc].
-      rewrite Forall_forall in IH. unfold SearchModel.skip_item. split.
-      + destruct (path_excl pre) eqn:E1; [intros []|]. destruct item_excl eqn:E2; [intros []|].
-        cbn [orb]. intro H. apply iter_dict_in in H. destruct H as [[k ch] [Hin H]]. cbn [fst snd] in H.
-        split; auto. destruct H as [H|H].
-        * unfold SearchModel.path_event in H. apply path_test_iff in H.
-          exists [], (VDict kvs). split; [reflexivity|]. left. rewrite vis_nil, E1, app_nil_r.
-          split; auto. destruct H as [H1 [H2|[]]]; subst ev. eapply LPath; eauto.
-        * apply (IH (k, ch) Hin (Hwfc _ Hin)) in H. destruct H as [_ [rest [w [Hg HH]]]].
-          cbn [snd] in Hg, HH.
-          exists (SKey k :: rest), w. cbn [get_at SearchSpec.vis child].
-          rewrite (find_key_in kvs k ch Hnd Hin). cbn [option_map snd step_is_idx andb negb].
-          rewrite E1. cbn [negb andb]. split; auto.
-          rewrite <- app_assoc in HH. cbn [app] in HH. exact HH.
-      + intros [Hi [rest [w [Hg HH]]]]. destruct rest as [|s r].
-        * cbn in Hg. inversion Hg; subst w. rewrite !vis_nil in HH.
-          destruct HH as [[Hv Hl]|[Hv1 [Hv2 _]]]; [|congruence].
-          apply negb_true_iff in Hv.
-          rewrite Hv, Hi. cbn [orb]. rewrite app_nil_r in Hl. apply iter_dict_in.
-          inversion Hl as [Hm|n Hn Ht|kvs' k ch Hw Hink Hpm].
-          -- cbn in Hm. discriminate.
-          -- apply attrs_of_nonatom in Hn. destruct Hn; discriminate.
-          -- inversion Hw; subst kvs'. exists (k, ch). split; auto. left. cbn [fst snd].
-             unfold SearchModel.path_event. apply path_test_iff. split; [exact Hpm|left; auto].
-        * cbn [get_at SearchSpec.vis] in Hg, HH. destruct s as [k|i]; [|discriminate].
-          cbn [child] in Hg, HH.
-          destruct (find (fun kv => atom_eqb (fst kv) k) kvs) as [kv|] eqn:Hf; [|discriminate].
-          apply find_key_some in Hf. destruct Hf as [Hin Hk]. cbn [option_map] in Hg, HH.
-          cbn [step_is_idx andb negb] in HH.
-          destruct (path_excl pre) eqn:E1; [destruct HH as [[Hv _]|[Hv _]]; discriminate|].
-          cbn [negb andb] in HH. rewrite Hi. cbn [orb].
-          apply iter_dict_in. exists kv. split; auto. right. rewrite Hk.
-          apply (IH kv Hin (Hwfc _ Hin)). split; auto. exists r, w. split; auto.
-          rewrite <- app_assoc. cbn [app]. exact HH.
-    - rewrite search_set_eq.
-      apply (seq_case (VSet xs) (map VAtom xs) (fun x => search x) (fun pre => iter_atoms pre xs 0)).
-      + intro i. cbn [child]. symmetry. apply nth_error_map_atom.
+      rewrite Forall_forall in IH.
+      apply (ent_case atom SKey (XDict kvs) kvs (fun _ => [])).
       + reflexivity.
-      + intros p e H. apply local_ev_shape in H. destruct H as [[a H]|[k H]]; discriminate.
+      + intros s ch. apply child_dict_some; auto.
+      + intros k ch Hin. cbn [child]. rewrite (find_key_in kvs k ch Hnd Hin). reflexivity.
+      + intros p e. apply local_ev_dict.
+      + intros p e. cbn [In SearchSpec.leaf_match]. intuition discriminate.
+      + intros e Hin. apply IH; auto.
+    - rewrite search_set_eq.
+      apply (seq_case (XSet xs) (map XAtom xs) (fun x => search x) (fun pre => iter_atoms pre xs 0)).
+      + intro i. cbn [child]. symmetry. apply nth_error_map_atom.
+      + intros s Hs. destruct s; try discriminate; reflexivity.
+      + intros p e H. apply local_ev_seq in H. exact H.
       + intros pre' e. apply (iter_atoms_in pre' xs 0 e).
       + intros x Hin. apply in_map_iff in Hin. destruct Hin as [a [Ha _]]. subst x.
         intros p' e. rewrite search_atom_eq. apply search_atom_iff.
     - rewrite search_frozen_eq.
-      apply (seq_case (VFrozen xs) (map VAtom xs) (fun x => search x) (fun pre => iter_atoms pre xs 0)).
+      apply (seq_case (XFrozen xs) (map XAtom xs) (fun x => search x) (fun pre => iter_atoms pre xs 0)).
       + intro i. cbn [child]. symmetry. apply nth_error_map_atom.
-      + reflexivity.
-      + intros p e H. apply local_ev_shape in H. destruct H as [[a H]|[k H]]; discriminate.
+      + intros s Hs. destruct s; try discriminate; reflexivity.
+      + intros p e H. apply local_ev_seq in H. exact H.
       + intros pre' e. apply (iter_atoms_in pre' xs 0 e).
       + intros x Hin. apply in_map_iff in Hin. destruct Hin as [a [Ha _]]. subst x.
         intros p' e. rewrite search_atom_eq. apply search_atom_iff.
+    - (* instance *)
+      rewrite search_obj_eq. cbn [xwf] in Hwf. destruct (wf_attrs_inv avs Hwf) as [Hnd Hwfc].
+      rewrite Forall_forall in IH.
+      apply (ent_case pystr SAttr (XObj cl avs) avs (fun _ => [])).
+      + reflexivity.
+      + intros s ch. apply child_attrs_some. reflexivity.
+      + intros n ch Hin. apply (child_attrs_in _ avs); auto.
+      + intros p e. apply local_ev_attrs. reflexivity.
+      + intros p e. cbn [In SearchSpec.leaf_match]. intuition discriminate.
+      + intros e Hin. apply IH; auto.
+    - (* named tuple *)
+      rewrite search_named_eq. cbn [xwf] in Hwf. destruct (wf_attrs_inv avs Hwf) as [Hnd Hwfc].
+      rewrite Forall_forall in IH.
+      apply (ent_case pystr SAttr (XNamed cl avs) avs (self_events (XNamed cl avs))).
+      + reflexivity.
+      + intros s ch. apply child_attrs_some. reflexivity.
+      + intros n ch Hin. apply (child_attrs_in _ avs); auto.
+      + intros p e. apply local_ev_attrs. reflexivity.
+      + intros p e. apply self_events_iff.
+      + intros e Hin. apply IH; auto.
+    - (* an object whose attributes cannot be read *)
+      rewrite search_opaque_eq. unfold SearchModel.skip_item, spec_ev. split.
+      + destruct (path_excl pre) eqn:E1; [intros []|]. destruct item_excl eqn:E2; [intros []|].
+        cbn [orb]. intros [H|[]]. subst ev. split; auto. exists [], (XOpaque cl).
+        split; [reflexivity|]. left. rewrite vis_nil, E1, app_nil_r. split; auto.
+        apply local_ev_opaque. reflexivity.
+      + intros [Hi [rest [w [Hg HH]]]]. destruct rest as [|s r].
+        * cbn in Hg. inversion Hg; subst w. rewrite !vis_nil in HH.
+          destruct HH as [[Hv Hl]|[Hv1 [Hv2 _]]]; [|congruence].
+          apply negb_true_iff in Hv. rewrite Hv, Hi. cbn [orb].
+          rewrite app_nil_r in Hl. apply local_ev_opaque in Hl. left. auto.
+        * cbn [get_at] in Hg. destruct s; discriminate.
   Qed.
 
   (* ---------- all locations ---------- *)
 
   Definition loc_list (pre : path) :=
-    fix go (xs : list value) (i : nat) : list (path * value) :=
+    fix go (xs : list xvalue) (i : nat) : list (path * xvalue) :=
       match xs with
       | [] => []
       | x :: r => (locations x (pre ++ [SIdx i]) ++ go r (S i))%list
       end.
-  Definition loc_dict (pre : path) :=
-    fix go (kvs : list (atom * value)) : list (path * value) :=
-      match kvs with
+  Definition loc_ent {A : Type} (mk : A -> step) (pre : path) :=
+    fix go (ents : list (A * xvalue)) : list (path * xvalue) :=
+      match ents with
       | [] => []
-      | kv :: r => (locations (snd kv) (pre ++ [SKey (fst kv)]) ++ go r)%list
+      | e :: r => (locations (snd e) (pre ++ [mk (fst e)]) ++ go r)%list
       end.
   Definition loc_atoms (pre : path) :=
-    fix go (xs : list atom) (i : nat) : list (path * value) :=
+    fix go (xs : list atom) (i : nat) : list (path * xvalue) :=
       match xs with
       | [] => []
-      | a :: r => ((pre ++ [SIdx i])%list, VAtom a) :: go r (S i)
+      | a :: r => ((pre ++ [SIdx i])%list, XAtom a) :: go r (S i)
       end.
 
   Lemma loc_list_in : forall pre xs n qv,
@@ -650,7 +842,7 @@ Section Proofs.
 
   Lemma loc_atoms_in : forall pre xs n qv,
     In qv (loc_atoms pre xs n) <->
-    exists i a, nth_error xs i = Some a /\ qv = ((pre ++ [SIdx (n + i)])%list, VAtom a).
+    exists i a, nth_error xs i = Some a /\ qv = ((pre ++ [SIdx (n + i)])%list, XAtom a).
   Proof.
     intros pre xs. induction xs as [|a r IH]; intros n qv.
     - cbn. split; [intros []|]. intros [i [y [H _]]]. destruct i; discriminate.
@@ -663,30 +855,52 @@ Section Proofs.
         * right. exists i, y. rewrite Nat.add_succ_r in H. auto.
   Qed.
 
-  Lemma loc_dict_in : forall pre kvs qv,
-    In qv (loc_dict pre kvs) <->
-    exists kv, In kv kvs /\ In qv (locations (snd kv) (pre ++ [SKey (fst kv)])).
+  Lemma loc_ent_in : forall (A : Type) (mk : A -> step) pre (ents : list (A * xvalue)) qv,
+    In qv (loc_ent mk pre ents) <->
+    exists e, In e ents /\ In qv (locations (snd e) (pre ++ [mk (fst e)])).
   Proof.
-    intros pre kvs qv. induction kvs as [|kv r IH].
-    - cbn. split; [intros []|]. intros [kv [[] _]].
-    - cbn [loc_dict]. fold (loc_dict pre). rewrite in_app_iff, IH. split.
-      + intros [H|[kv' [Hin H]]].
-        * exists kv. split; [left|]; auto.
-        * exists kv'. split; [right|]; auto.
-      + intros [kv' [[Heq|Hin] H]].
-        * subst kv'. auto.
-        * right. exists kv'. auto.
+    intros A mk pre ents qv. induction ents as [|e r IH].
+    - cbn. split; [intros []|]. intros [e [[] _]].
+    - cbn [loc_ent]. fold (loc_ent mk pre). rewrite in_app_iff, IH. split.
+      + intros [H|[e' [Hin H]]].
+        * exists e. split; [left|]; auto.
+        * exists e'. split; [right|]; auto.
+      + intros [e' [[Heq|Hin] H]].
+        * subst e'. auto.
+        * right. exists e'. auto.
   Qed.
 
-  Theorem locations_iff : forall obj, wf obj = true ->
+  Lemma loc_ent_case : forall (A : Type) (mk : A -> step) (obj : xvalue) (ents : list (A * xvalue)),
+    (forall s ch, child obj s = Some ch -> exists a, s = mk a /\ In (a, ch) ents) ->
+    (forall a ch, In (a, ch) ents -> child obj (mk a) = Some ch) ->
+    (forall e, In e ents -> forall pre q v,
+        In (q, v) (locations (snd e) pre) <-> exists rest, q = (pre ++ rest)%list /\ get_at (snd e) rest = Some v) ->
+    forall pre q v, In (q, v) ((pre, obj) :: loc_ent mk pre ents) <->
+                    exists rest, q = (pre ++ rest)%list /\ get_at obj rest = Some v.
+  Proof.
+    intros A mk obj ents Hch1 Hch2 IH pre q v. cbn [In]. rewrite loc_ent_in. split.
+    - intros [H|[[a ch] [Hin H]]].
+      + inversion H; subst. exists []. rewrite app_nil_r. auto.
+      + cbn [fst snd] in H. apply (IH (a, ch) Hin) in H.
+        destruct H as [rest [Hq Hg]]. exists (mk a :: rest). cbn [get_at].
+        rewrite (Hch2 a ch Hin). cbn [snd] in Hg. rewrite Hq, <- app_assoc. auto.
+    - intros [rest [Hq Hg]]. destruct rest as [|s r].
+      + cbn in Hg. inversion Hg; subst. rewrite app_nil_r. auto.
+      + right. cbn [get_at] in Hg. destruct (child obj s) as [ch|] eqn:Hc; [|discriminate].
+        destruct (Hch1 s ch Hc) as [a [Hs Hin]]. subst s.
+        exists (a, ch). split; auto. apply (IH (a, ch) Hin).
+        exists r. rewrite Hq, <- app_assoc. auto.
+  Qed.
+
+  Theorem locations_iff : forall obj, xwf obj = true ->
     forall pre q v, In (q, v) (locations obj pre) <->
                     exists rest, q = (pre ++ rest)%list /\ get_at obj rest = Some v.
   Proof.
-    induction obj as [a|xs IH|xs IH|kvs IH|xs|xs] using value_ind'; intros Hwf pre q v.
+    induction obj as [a|xs IH|xs IH|kvs IH|xs|xs|cl avs IH|cl avs IH|cl] using value_ind'; intros Hwf pre q v.
     - cbn [locations In]. split.
       + intros [H|[]]. inversion H; subst. exists []. rewrite app_nil_r. auto.
       + intros [rest [Hq Hg]]. apply get_at_atom in Hg. destruct Hg; subst. rewrite app_nil_r. auto.
-    - change (locations (VList xs) pre) with ((pre, VList xs) :: loc_list pre xs 0).
+    - change (locations (XList xs) pre) with ((pre, XList xs) :: loc_list pre xs 0).
       cbn [In]. rewrite loc_list_in. rewrite Forall_forall in IH. split.
       + intros [H|[i [x [Hn H]]]].
         * inversion H; subst. exists []. rewrite app_nil_r. auto.
@@ -695,11 +909,11 @@ Section Proofs.
           rewrite Hq, <- app_assoc. auto.
       + intros [rest [Hq Hg]]. destruct rest as [|s r].
         * cbn in Hg. inversion Hg; subst. rewrite app_nil_r. auto.
-        * right. cbn [get_at] in Hg. destruct s as [k|i]; [discriminate|]. cbn [child] in Hg.
+        * right. cbn [get_at] in Hg. destruct s as [k|i|n0]; [discriminate| |discriminate]. cbn [child] in Hg.
           destruct (nth_error xs i) as [x|] eqn:Hn; [|discriminate]. exists i, x. split; auto.
           apply IH; [eapply nth_error_In; eauto|eapply wf_list_inv; eauto using nth_error_In|].
           exists r. rewrite Hq, <- app_assoc. auto.
-    - change (locations (VTuple xs) pre) with ((pre, VTuple xs) :: loc_list pre xs 0).
+    - change (locations (XTuple xs) pre) with ((pre, XTuple xs) :: loc_list pre xs 0).
       cbn [In]. rewrite loc_list_in. rewrite Forall_forall in IH. split.
       + intros [H|[i [x [Hn H]]]].
         * inversion H; subst. exists []. rewrite app_nil_r. auto.
@@ -708,46 +922,53 @@ Section Proofs.
           rewrite Hq, <- app_assoc. auto.
       + intros [rest [Hq Hg]]. destruct rest as [|s r].
         * cbn in Hg. inversion Hg; subst. rewrite app_nil_r. auto.
-        * right. cbn [get_at] in Hg. destruct s as [k|i]; [discriminate|]. cbn [child] in Hg.
+        * right. cbn [get_at] in Hg. destruct s as [k|i|n0]; [discriminate| |discriminate]. cbn [child] in Hg.
           destruct (nth_error xs i) as [x|] eqn:Hn; [|discriminate]. exists i, x. split; auto.
           apply IH; [eapply nth_error_In; eauto|eapply wf_list_inv; eauto using nth_error_In|].
           exists r. rewrite Hq, <- app_assoc. auto.
-    - change (locations (VDict kvs) pre) with ((pre, VDict kvs) :: loc_dict pre kvs).
-      destruct (wf_dict_inv kvs Hwf) as [Hnd Hwfc].
-      cbn [In]. rewrite loc_dict_in. rewrite Forall_forall in IH. split.
-      + intros [H|[[k ch] [Hin H]]].
-        * inversion H; subst. exists []. rewrite app_nil_r. auto.
-        * cbn [fst snd] in H. apply (IH (k, ch) Hin (Hwfc _ Hin)) in H.
-          destruct H as [rest [Hq Hg]]. exists (SKey k :: rest). cbn [get_at child].
-          rewrite (find_key_in kvs k ch Hnd Hin). cbn [option_map snd].
-          rewrite Hq, <- app_assoc. auto.
-      + intros [rest [Hq Hg]]. destruct rest as [|s r].
-        * cbn in Hg. inversion Hg; subst. rewrite app_nil_r. auto.
-        * right. cbn [get_at] in Hg. destruct s as [k|i]; [|discriminate]. cbn [child] in Hg.
-          destruct (find (fun kv => atom_eqb (fst kv) k) kvs) as [kv|] eqn:Hf; [|discriminate].
-          apply find_key_some in Hf. destruct Hf as [Hin Hk]. cbn [option_map] in Hg.
-          exists kv. split; auto. apply (IH kv Hin (Hwfc _ Hin)).
-          exists r. rewrite Hk, Hq, <- app_assoc. auto.
-    - change (locations (VSet xs) pre) with ((pre, VSet xs) :: loc_atoms pre xs 0).
+    - change (locations (XDict kvs) pre) with ((pre, XDict kvs) :: loc_ent SKey pre kvs).
+      destruct (wf_dict_inv kvs Hwf) as [Hnd Hwfc]. rewrite Forall_forall in IH.
+      apply (loc_ent_case atom SKey (XDict kvs) kvs).
+      + intros s ch. apply child_dict_some; auto.
+      + intros k ch Hin. cbn [child]. rewrite (find_key_in kvs k ch Hnd Hin). reflexivity.
+      + intros e Hin. apply IH; auto.
+    - change (locations (XSet xs) pre) with ((pre, XSet xs) :: loc_atoms pre xs 0).
       cbn [In]. rewrite loc_atoms_in. split.
       + intros [H|[i [a [Hn H]]]].
         * inversion H; subst. exists []. rewrite app_nil_r. auto.
         * inversion H; subst. exists [SIdx i]. cbn [get_at child]. rewrite Hn. auto.
       + intros [rest [Hq Hg]]. destruct rest as [|s r].
         * cbn in Hg. inversion Hg; subst. rewrite app_nil_r. auto.
-        * right. cbn [get_at] in Hg. destruct s as [k|i]; [discriminate|]. cbn [child] in Hg.
+        * right. cbn [get_at] in Hg. destruct s as [k|i|n0]; [discriminate| |discriminate]. cbn [child] in Hg.
           destruct (nth_error xs i) as [a|] eqn:Hn; [|discriminate]. cbn [option_map] in Hg.
           apply get_at_atom in Hg. destruct Hg; subst. exists i, a. auto.
-    - change (locations (VFrozen xs) pre) with ((pre, VFrozen xs) :: loc_atoms pre xs 0).
+    - change (locations (XFrozen xs) pre) with ((pre, XFrozen xs) :: loc_atoms pre xs 0).
       cbn [In]. rewrite loc_atoms_in. split.
       + intros [H|[i [a [Hn H]]]].
         * inversion H; subst. exists []. rewrite app_nil_r. auto.
         * inversion H; subst. exists [SIdx i]. cbn [get_at child]. rewrite Hn. auto.
       + intros [rest [Hq Hg]]. destruct rest as [|s r].
         * cbn in Hg. inversion Hg; subst. rewrite app_nil_r. auto.
-        * right. cbn [get_at] in Hg. destruct s as [k|i]; [discriminate|]. cbn [child] in Hg.
+        * right. cbn [get_at] in Hg. destruct s as [k|i|n0]; [discriminate| |discriminate]. cbn [child] in Hg.
           destruct (nth_error xs i) as [a|] eqn:Hn; [|discriminate]. cbn [option_map] in Hg.
           apply get_at_atom in Hg. destruct Hg; subst. exists i, a. auto.
+    - change (locations (XObj cl avs) pre) with ((pre, XObj cl avs) :: loc_ent SAttr pre avs).
+      cbn [xwf] in Hwf. destruct (wf_attrs_inv avs Hwf) as [Hnd Hwfc]. rewrite Forall_forall in IH.
+      apply (loc_ent_case pystr SAttr (XObj cl avs) avs).
+      + intros s ch. apply child_attrs_some. reflexivity.
+      + intros n ch Hin. apply (child_attrs_in _ avs); auto.
+      + intros e Hin. apply IH; auto.
+    - change (locations (XNamed cl avs) pre) with ((pre, XNamed cl avs) :: loc_ent SAttr pre avs).
+      cbn [xwf] in Hwf. destruct (wf_attrs_inv avs Hwf) as [Hnd Hwfc]. rewrite Forall_forall in IH.
+      apply (loc_ent_case pystr SAttr (XNamed cl avs) avs).
+      + intros s ch. apply child_attrs_some. reflexivity.
+      + intros n ch Hin. apply (child_attrs_in _ avs); auto.
+      + intros e Hin. apply IH; auto.
+    - cbn [locations In]. split.
+      + intros [H|[]]. inversion H; subst. exists []. rewrite app_nil_r. auto.
+      + intros [rest [Hq Hg]]. destruct rest as [|s r].
+        * cbn in Hg. inversion Hg; subst. rewrite app_nil_r. auto.
+        * cbn [get_at] in Hg. destruct s; discriminate.
   Qed.
 
   (* ---------- paths and sub-values ---------- *)
@@ -759,43 +980,60 @@ Section Proofs.
     destruct (child obj s); auto.
   Qed.
 
-  Lemma child_wf : forall obj s ch, wf obj = true -> child obj s = Some ch -> wf ch = true.
+  Lemma child_wf : forall obj s ch, xwf obj = true -> child obj s = Some ch -> xwf ch = true.
   Proof.
-    intros obj s ch Hwf H. destruct obj as [a|xs|xs|kvs|xs|xs], s as [k|i]; cbn [child] in H; try discriminate.
+    intros obj s ch Hwf H.
+    destruct obj as [a|xs|xs|kvs|xs|xs|cl avs|cl avs|cl], s as [k|i|n]; cbn [child] in H; try discriminate.
     - cbn in Hwf. eapply wf_list_inv; eauto using nth_error_In.
     - cbn in Hwf. eapply wf_list_inv; eauto using nth_error_In.
     - destruct (find _ kvs) as [kv|] eqn:Hf; [|discriminate]. apply find_key_some in Hf.
       destruct Hf as [Hin _]. cbn in H. inversion H; subst. apply (proj2 (wf_dict_inv kvs Hwf)); auto.
     - destruct (nth_error xs i); [|discriminate]. cbn in H. inversion H. reflexivity.
     - destruct (nth_error xs i); [|discriminate]. cbn in H. inversion H. reflexivity.
+    - destruct (find _ avs) as [av|] eqn:Hf; [|discriminate]. apply find_attr_some in Hf.
+      destruct Hf as [Hin _]. cbn in H. inversion H; subst. cbn [xwf] in Hwf.
+      apply (proj2 (wf_attrs_inv avs Hwf)); auto.
+    - destruct (find _ avs) as [av|] eqn:Hf; [|discriminate]. apply find_attr_some in Hf.
+      destruct Hf as [Hin _]. cbn in H. inversion H; subst. cbn [xwf] in Hwf.
+      apply (proj2 (wf_attrs_inv avs Hwf)); auto.
   Qed.
 
-  Lemma get_at_wf : forall p obj w, wf obj = true -> get_at obj p = Some w -> wf w = true.
+  Lemma get_at_wf : forall p obj w, xwf obj = true -> get_at obj p = Some w -> xwf w = true.
   Proof.
     induction p as [|s r IH]; intros obj w Hwf H; cbn [get_at] in H.
     - inversion H; subst; auto.
     - destruct (child obj s) as [ch|] eqn:Hc; [|discriminate]. apply (IH ch w); [eapply child_wf; eauto|exact H].
   Qed.
 
-  Lemma child_key_iff : forall w k v, wf w = true ->
-    (child w (SKey k) = Some v <-> exists kvs, w = VDict kvs /\ In (k, v) kvs).
+  (* the entries of a dictionary / the attributes of an instance or named tuple, as children *)
+  Lemma entry_child_iff : forall w s v, xwf w = true ->
+    (step_is_idx s = false /\ child w s = Some v <->
+     (exists kvs k, w = XDict kvs /\ s = SKey k /\ In (k, v) kvs)
+     \/ (exists avs n, obj_attrs w = Some avs /\ s = SAttr n /\ In (n, v) avs)).
   Proof.
-    intros w k v Hwf. split.
-    - intro H. destruct w as [a|xs|xs|kvs|xs|xs]; cbn [child] in H; try discriminate.
-      destruct (find _ kvs) as [kv|] eqn:Hf; [|discriminate]. apply find_key_some in Hf.
-      destruct Hf as [Hin Hk]. cbn in H. inversion H; subst. exists kvs. split; auto.
-      destruct kv; exact Hin.
-    - intros [kvs [Hw Hin]]. subst w. cbn [child].
-      rewrite (find_key_in kvs k v (proj1 (wf_dict_inv kvs Hwf)) Hin). reflexivity.
+    intros w s v Hwf. split.
+    - intros [Hs H]. destruct w as [a|xs|xs|kvs|xs|xs|cl avs|cl avs|cl], s as [k|i|n]; cbn [child] in H; try discriminate.
+      + left. destruct (child_dict_some kvs (SKey k) v (proj1 (wf_dict_inv kvs Hwf)) H) as [k' [Hk Hin]].
+        inversion Hk; subst. eauto.
+      + right. destruct (child_attrs_some (XObj cl avs) avs (SAttr n) v eq_refl H) as [n' [Hn Hin]].
+        inversion Hn; subst. exists avs, n'. auto.
+      + right. destruct (child_attrs_some (XNamed cl avs) avs (SAttr n) v eq_refl H) as [n' [Hn Hin]].
+        inversion Hn; subst. exists avs, n'. auto.
+    - intros [[kvs [k [Hw [Hs Hin]]]]|[avs [n [Hw [Hs Hin]]]]]; subst s; split; try reflexivity.
+      + subst w. cbn [child]. rewrite (find_key_in kvs k v (proj1 (wf_dict_inv kvs Hwf)) Hin). reflexivity.
+      + apply (child_attrs_in w avs); auto.
+        destruct w; try discriminate; cbn in Hw; inversion Hw; subst; cbn [xwf] in Hwf;
+          apply (proj1 (wf_attrs_inv _ Hwf)).
   Qed.
 
   Lemma entry_parent_iff : forall q par,
-    entry_parent q = Some par <-> exists k, q = (par ++ [SKey k])%list.
+    entry_parent q = Some par <-> exists s, step_is_idx s = false /\ q = (par ++ [s])%list.
   Proof.
     intros q par. unfold entry_parent. split.
-    - intro H. destruct (rev q) as [|[k|i] rp] eqn:E; try discriminate. inversion H; subst.
-      exists k. rewrite <- (rev_involutive q), E. reflexivity.
-    - intros [k Hq]. subst q. rewrite rev_unit, rev_involutive. reflexivity.
+    - intro H. destruct (rev q) as [|[k|i|n] rp] eqn:E; try discriminate; inversion H; subst.
+      + exists (SKey k). split; auto. rewrite <- (rev_involutive q), E. reflexivity.
+      + exists (SAttr n). split; auto. rewrite <- (rev_involutive q), E. reflexivity.
+    - intros [s [Hs Hq]]. subst q. rewrite rev_unit, rev_involutive. destruct s; try discriminate; reflexivity.
   Qed.
 
   (* ---------- the clauses of C16 on the event list ---------- *)
@@ -808,13 +1046,27 @@ Section Proofs.
     - intros [H1 [H2 H3]]. subst. apply LValue. exact H3.
   Qed.
 
-  Lemma local_ev_path : forall p w q v,
-    local_ev p w (EvPath q v) <->
-    exists kvs k, w = VDict kvs /\ In (k, v) kvs /\ q = (p ++ [SKey k])%list /\ path_match q = true.
+  Lemma local_ev_path : forall p w q v, xwf w = true ->
+    (local_ev p w (EvPath q v) <->
+     exists s, step_is_idx s = false /\ child w s = Some v /\ q = (p ++ [s])%list /\ path_match q = true).
   Proof.
-    intros p w q v. split.
-    - intro H. inversion H; subst. eexists. eexists. repeat split; eauto.
-    - intros [kvs [k [H1 [H2 [H3 H4]]]]]. subst q. eapply LPath; eauto.
+    intros p w q v Hwf. split.
+    - intro H. inversion H; subst.
+      + exists (SKey k). repeat split; auto. apply (entry_child_iff _ (SKey k) v Hwf). left. eauto.
+      + exists (SAttr n). repeat split; auto. apply (entry_child_iff w (SAttr n) v Hwf). right. eauto.
+    - intros [s [Hs [Hc [Hq Hm]]]]. subst q.
+      destruct (proj1 (entry_child_iff w s v Hwf) (conj Hs Hc))
+        as [[kvs [k [Hw [Hsk Hin]]]]|[avs [n [Hw [Hsk Hin]]]]]; subst s.
+      + eapply LPath; eauto.
+      + eapply LAPath; eauto.
+  Qed.
+
+  Lemma local_ev_unproc : forall p w q,
+    local_ev p w (EvUnproc q) <-> q = p /\ is_opaque w = true.
+  Proof.
+    intros p w q. split.
+    - intro H. inversion H; subst; auto.
+    - intros [H1 H2]. subst. apply LUnproc. exact H2.
   Qed.
 
   Lemma local_ev_attr : forall p w q n,
@@ -843,7 +1095,7 @@ Section Proofs.
     induction rest as [|s r IH]; intros pre obj w H1 H2 Hg; [rewrite vis_nil in *; congruence|].
     cbn [SearchSpec.vis get_at] in *. destruct (path_excl pre); [discriminate|]. cbn [negb andb] in *.
     destruct (child obj s) as [ch|]; [|discriminate].
-    destruct (step_is_idx s && ty_excl (type_of ch)); [discriminate|]. cbn [negb andb orb] in *.
+    destruct (step_is_idx s && ty_excl (xtype_of ch)); [discriminate|]. cbn [negb andb orb] in *.
     destruct (step_is_idx s && shortcut ch) eqn:B; cbn [negb andb orb] in *.
     - destruct r as [|s' r']; [|discriminate]. cbn in Hg. inversion Hg; subst w.
       apply andb_true_iff in B. destruct B as [B1 B2]. cbn [last_is_idx]. auto.
@@ -864,7 +1116,7 @@ Section Proofs.
     - apply (IH _ _ _ H3 Hg). exact Hl.
   Qed.
 
-  Theorem values_iff : forall obj, wf obj = true -> forall q v,
+  Theorem values_iff : forall obj, xwf obj = true -> forall q v,
     In (EvValue q v) (search obj []) <->
     item_excl = false /\ get_at obj q = Some v /\ vis false [] obj q = true
     /\ match_at (last_is_idx q) v = true.
@@ -883,20 +1135,34 @@ Section Proofs.
       + right. auto.
   Qed.
 
-  Theorem paths_iff : forall obj, wf obj = true -> forall q v,
+  (* matched_paths: the entries of dictionaries and the attributes of instances / named tuples *)
+  Theorem paths_iff : forall obj, xwf obj = true -> forall q v,
     In (EvPath q v) (search obj []) <->
     item_excl = false /\
-    exists par kvs k, q = (par ++ [SKey k])%list /\ get_at obj par = Some (VDict kvs) /\ In (k, v) kvs
-                      /\ vis true [] obj par = true /\ path_match q = true.
+    exists par w s, q = (par ++ [s])%list /\ step_is_idx s = false /\ get_at obj par = Some w
+                    /\ child w s = Some v /\ vis true [] obj par = true /\ path_match q = true.
   Proof.
     intros obj Hwf q v. rewrite search_iff by exact Hwf. unfold spec_ev. cbn [app]. split.
-    - intros [Hi [rest [w [Hg [[Hv Hl]|[_ [_ Hev]]]]]]]; [|discriminate]. apply local_ev_path in Hl.
-      destruct Hl as [kvs [k [H1 [H2 [H3 H4]]]]]. subst. split; auto. exists rest, kvs, k. auto.
-    - intros [Hi [par [kvs [k [H1 [H2 [H3 [H4 H5]]]]]]]]. split; auto. exists par, (VDict kvs).
-      split; auto. left. split; auto. apply local_ev_path. exists kvs, k. auto.
+    - intros [Hi [rest [w [Hg [[Hv Hl]|[_ [_ Hev]]]]]]]; [|discriminate].
+      apply local_ev_path in Hl; [|eapply get_at_wf; eauto].
+      destruct Hl as [s [H1 [H2 [H3 H4]]]]. subst. split; auto. exists rest, w, s. repeat split; auto.
+    - intros [Hi [par [w [s [H1 [H2 [H3 [H4 [H5 H6]]]]]]]]]. split; auto. exists par, w.
+      split; auto. left. split; auto. apply local_ev_path; [eapply get_at_wf; eauto|]. exists s. repeat split; auto.
   Qed.
 
-  Theorem attrs_iff : forall obj, wf obj = true -> forall q n,
+  Theorem unproc_iff : forall obj, xwf obj = true -> forall q,
+    In (EvUnproc q) (search obj []) <->
+    item_excl = false /\
+    exists w, get_at obj q = Some w /\ vis true [] obj q = true /\ is_opaque w = true.
+  Proof.
+    intros obj Hwf q. rewrite search_iff by exact Hwf. unfold spec_ev. cbn [app]. split.
+    - intros [Hi [rest [w [Hg [[Hv Hl]|[_ [_ Hev]]]]]]]; [|discriminate].
+      apply local_ev_unproc in Hl. destruct Hl as [H1 H2]. subst. split; auto. exists w. auto.
+    - intros [Hi [w [Hg [Hv Ho]]]]. split; auto. exists q, w. split; auto. left. split; auto.
+      apply local_ev_unproc. auto.
+  Qed.
+
+  Theorem attrs_iff : forall obj, xwf obj = true -> forall q n,
     In (EvAttr q n) (search obj []) <->
     item_excl = false /\
     exists w, get_at obj q = Some w /\ vis true [] obj q = true /\ In n (attrs_of w)
@@ -912,7 +1178,7 @@ Section Proofs.
 
   (* ---------- against the list specifications ---------- *)
 
-  Lemma in_locations_root : forall obj, wf obj = true -> forall q v,
+  Lemma in_locations_root : forall obj, xwf obj = true -> forall q v,
     In (q, v) (locations obj []) <-> get_at obj q = Some v.
   Proof.
     intros obj Hwf q v. rewrite locations_iff by exact Hwf. cbn [app]. split.
@@ -920,7 +1186,7 @@ Section Proofs.
     - intro H. exists q. auto.
   Qed.
 
-  Theorem values_exact : forall obj, wf obj = true -> forall q v,
+  Theorem values_exact : forall obj, xwf obj = true -> forall q v,
     In (EvValue q v) (search obj []) <-> In (q, v) (matches_spec obj).
   Proof.
     intros obj Hwf q v. rewrite values_iff by exact Hwf. unfold SearchSpec.matches_spec.
@@ -929,32 +1195,44 @@ Section Proofs.
     - rewrite filter_In, in_locations_root by exact Hwf. cbn [fst snd]. rewrite andb_true_iff. tauto.
   Qed.
 
-  Theorem paths_exact : forall obj, wf obj = true -> forall q v,
+  Theorem paths_exact : forall obj, xwf obj = true -> forall q v,
     In (EvPath q v) (search obj []) <-> In (q, v) (paths_spec obj).
   Proof.
     intros obj Hwf q v. rewrite paths_iff by exact Hwf. unfold SearchSpec.paths_spec.
     destruct item_excl.
     - cbn. intuition discriminate.
     - rewrite filter_In, in_locations_root by exact Hwf. cbn [fst snd]. split.
-      + intros [_ [par [kvs [k [Hq [Hg [Hin [Hv Hm]]]]]]]].
+      + intros [_ [par [w [s [Hq [Hs [Hg [Hc [Hv Hm]]]]]]]]].
         assert (Hep : entry_parent q = Some par) by (apply entry_parent_iff; eauto).
         rewrite Hep, Hv, Hm. split; auto. subst q. rewrite get_at_app, Hg. cbn [get_at].
-        assert (Hc : child (VDict kvs) (SKey k) = Some v).
-        { apply child_key_iff; [eapply get_at_wf; eauto|]. eauto. }
         rewrite Hc. reflexivity.
       + intros [Hg H]. split; auto. destruct (entry_parent q) as [par|] eqn:Hep; [|discriminate].
         apply andb_true_iff in H. destruct H as [Hv Hm].
-        apply entry_parent_iff in Hep. destruct Hep as [k Hq]. subst q.
+        apply entry_parent_iff in Hep. destruct Hep as [s [Hs Hq]]. subst q.
         rewrite get_at_app in Hg. destruct (get_at obj par) as [w|] eqn:Hgp; [|discriminate].
-        cbn [get_at] in Hg. destruct (child w (SKey k)) as [ch|] eqn:Hc; [|discriminate].
-        inversion Hg; subst ch. apply child_key_iff in Hc; [|eapply get_at_wf; eauto].
-        destruct Hc as [kvs [Hw Hin]]. subst w. exists par, kvs, k. auto.
+        cbn [get_at] in Hg. destruct (child w s) as [ch|] eqn:Hc; [|discriminate].
+        inversion Hg; subst ch. exists par, w, s. repeat split; auto.
+  Qed.
+
+  (* `unprocessed` is exactly the list of the visible objects whose attributes cannot be read *)
+  Theorem unprocessed_exact : forall obj, xwf obj = true -> forall q,
+    In (EvUnproc q) (search obj []) <-> In q (unprocessed_spec obj).
+  Proof.
+    intros obj Hwf q. rewrite unproc_iff by exact Hwf. unfold SearchSpec.unprocessed_spec.
+    destruct item_excl.
+    - cbn. intuition discriminate.
+    - rewrite in_map_iff. split.
+      + intros [_ [w [Hg [Hv Ho]]]]. exists (q, w). split; auto. apply filter_In.
+        rewrite in_locations_root by exact Hwf. cbn [fst snd]. rewrite Hv, Ho. auto.
+      + intros [[q' w] [Hq H]]. cbn [fst] in Hq. subst q'. apply filter_In in H.
+        rewrite in_locations_root in H by exact Hwf. cbn [fst snd] in H. destruct H as [Hg H].
+        apply andb_true_iff in H. destruct H as [Hv Ho]. split; auto. exists w. auto.
   Qed.
 
   (* ---------- documented exclusion vs exclusion as implemented ---------- *)
 
   Lemma vis_doc_head : forall pre obj rest, vis_doc pre obj rest = true ->
-    path_excl pre = false /\ ty_excl (type_of obj) = false.
+    path_excl pre = false /\ ty_excl (xtype_of obj) = false.
   Proof.
     intros pre obj rest H. destruct rest; cbn [SearchSpec.vis_doc] in H;
       apply andb_true_iff in H; destruct H as [H _]; apply andb_true_iff in H; destruct H as [H1 H2];
@@ -980,7 +1258,7 @@ Section Proofs.
 
   (* a container that is reached is entered, when the item is an atom *)
   Lemma vis_enter_container : forall rest pre obj w, atom_item = true ->
-    vis false pre obj rest = true -> get_at obj rest = Some w -> (forall a, w <> VAtom a) ->
+    vis false pre obj rest = true -> get_at obj rest = Some w -> (forall a, w <> XAtom a) ->
     vis true pre obj rest = true.
   Proof.
     intros rest pre obj w Hai Hv Hg Hna. destruct (vis true pre obj rest) eqn:E; auto.
@@ -991,25 +1269,34 @@ Section Proofs.
   Lemma child_dvo_idx : forall f obj i ch, dict_values_ok f obj = true -> child obj (SIdx i) = Some ch ->
     dict_values_ok f ch = true.
   Proof.
-    intros f obj i ch H Hc. destruct obj as [a|xs|xs|kvs|xs|xs]; cbn [child] in Hc; try discriminate.
+    intros f obj i ch H Hc. destruct obj as [a|xs|xs|kvs|xs|xs|cl avs|cl avs|cl]; cbn [child] in Hc; try discriminate.
     - cbn in H. rewrite forallb_forall in H. eauto using nth_error_In.
     - cbn in H. rewrite forallb_forall in H. eauto using nth_error_In.
     - destruct (nth_error xs i); [|discriminate]. inversion Hc. reflexivity.
     - destruct (nth_error xs i); [|discriminate]. inversion Hc. reflexivity.
   Qed.
 
-  Lemma child_dvo_key : forall f obj k ch, dict_values_ok f obj = true -> child obj (SKey k) = Some ch ->
-    f (type_of ch) = false /\ dict_values_ok f ch = true.
+  (* a dictionary value / an attribute value *)
+  Lemma child_dvo_key : forall f obj s ch, step_is_idx s = false ->
+    dict_values_ok f obj = true -> child obj s = Some ch ->
+    f (xtype_of ch) = false /\ dict_values_ok f ch = true.
   Proof.
-    intros f obj k ch H Hc. destruct obj as [a|xs|xs|kvs|xs|xs]; cbn [child] in Hc; try discriminate.
-    destruct (find _ kvs) as [kv|] eqn:Hf; [|discriminate]. apply find_key_some in Hf. destruct Hf as [Hin _].
-    cbn in Hc. inversion Hc; subst ch. cbn in H. rewrite forallb_forall in H. apply H in Hin.
-    apply andb_true_iff in Hin. destruct Hin as [H1 H2]. apply negb_true_iff in H1. auto.
+    intros f obj s ch Hs H Hc.
+    destruct obj as [a|xs|xs|kvs|xs|xs|cl avs|cl avs|cl], s as [k|i|n]; cbn [child] in Hc; try discriminate.
+    - destruct (find _ kvs) as [kv|] eqn:Hf; [|discriminate]. apply find_key_some in Hf. destruct Hf as [Hin _].
+      cbn in Hc. inversion Hc; subst ch. cbn in H. rewrite forallb_forall in H. apply H in Hin.
+      apply andb_true_iff in Hin. destruct Hin as [H1 H2]. apply negb_true_iff in H1. auto.
+    - destruct (find _ avs) as [av|] eqn:Hf; [|discriminate]. apply find_attr_some in Hf. destruct Hf as [Hin _].
+      cbn in Hc. inversion Hc; subst ch. cbn in H. rewrite forallb_forall in H. apply H in Hin.
+      apply andb_true_iff in Hin. destruct Hin as [H1 H2]. apply negb_true_iff in H1. auto.
+    - destruct (find _ avs) as [av|] eqn:Hf; [|discriminate]. apply find_attr_some in Hf. destruct Hf as [Hin _].
+      cbn in Hc. inversion Hc; subst ch. cbn in H. rewrite forallb_forall in H. apply H in Hin.
+      apply andb_true_iff in Hin. destruct Hin as [H1 H2]. apply negb_true_iff in H1. auto.
   Qed.
 
   (* under the K16 guard, whatever the search reaches is visible in the documented sense *)
   Lemma vis_implies_doc : forall rest e pre obj,
-    ty_excl (type_of obj) = false -> dict_values_ok ty_excl obj = true ->
+    ty_excl (xtype_of obj) = false -> dict_values_ok ty_excl obj = true ->
     vis e pre obj rest = true -> vis_doc pre obj rest = true.
   Proof.
     induction rest as [|s r IH]; intros e pre obj Ht Hd H; cbn [SearchSpec.vis SearchSpec.vis_doc] in *; rewrite Ht.
@@ -1017,9 +1304,10 @@ Section Proofs.
     - destruct (path_excl pre); [discriminate|]. cbn [negb andb] in *.
       destruct (child obj s) as [ch|] eqn:Hc; [|discriminate].
       apply andb_true_iff in H. destruct H as [H H3]. apply andb_true_iff in H. destruct H as [H1 _].
-      destruct s as [k|i]; cbn [step_is_idx andb negb] in H1.
-      + destruct (child_dvo_key _ _ _ _ Hd Hc) as [Hk1 Hk2]. eapply IH; eauto.
-      + apply negb_true_iff in H1. eapply IH; eauto. eapply child_dvo_idx; eauto.
+      destruct (step_is_idx s) eqn:Hs; cbn [andb negb] in H1.
+      + destruct s as [k|i|n]; try discriminate.
+        apply negb_true_iff in H1. eapply IH; eauto. eapply child_dvo_idx; eauto.
+      + destruct (child_dvo_key _ _ _ _ Hs Hd Hc) as [Hk1 Hk2]. eapply IH; eauto.
   Qed.
 
   Lemma dvo_get : forall f par obj w, dict_values_ok f obj = true -> get_at obj par = Some w ->
@@ -1027,14 +1315,14 @@ Section Proofs.
   Proof.
     induction par as [|s r IH]; intros obj w H Hg; cbn [get_at] in Hg.
     - inversion Hg; subst; auto.
-    - destruct (child obj s) as [ch|] eqn:Hc; [|discriminate]. destruct s as [k|i].
+    - destruct (child obj s) as [ch|] eqn:Hc; [|discriminate]. destruct (step_is_idx s) eqn:Hs.
+      + destruct s as [k|i|n]; try discriminate. eapply IH; [|exact Hg]. eapply child_dvo_idx; eauto.
       + eapply IH; [|exact Hg]. eapply child_dvo_key; eauto.
-      + eapply IH; [|exact Hg]. eapply child_dvo_idx; eauto.
   Qed.
 
   Lemma vis_doc_snoc : forall par pre obj s w ch,
     vis_doc pre obj par = true -> get_at obj par = Some w -> child w s = Some ch ->
-    path_excl (pre ++ par ++ [s]) = false -> ty_excl (type_of ch) = false ->
+    path_excl (pre ++ par ++ [s]) = false -> ty_excl (xtype_of ch) = false ->
     vis_doc pre obj (par ++ [s]) = true.
   Proof.
     induction par as [|s0 r IH]; intros pre obj s w ch Hv Hg Hc Hp Ht.
@@ -1046,17 +1334,17 @@ Section Proofs.
   Qed.
 
   Definition dpo_list (f : path -> bool) (pre : path) :=
-    fix go (xs : list value) (i : nat) : bool :=
+    fix go (xs : list xvalue) (i : nat) : bool :=
       match xs with
       | [] => true
       | x :: r => dict_paths_ok f x (pre ++ [SIdx i]) && go r (S i)
       end.
-  Definition dpo_dict (f : path -> bool) (pre : path) :=
-    fix go (kvs : list (atom * value)) : bool :=
-      match kvs with
+  Definition dpo_ent {A : Type} (mk : A -> step) (f : path -> bool) (pre : path) :=
+    fix go (ents : list (A * xvalue)) : bool :=
+      match ents with
       | [] => true
-      | kv :: r => negb (f (pre ++ [SKey (fst kv)])%list)
-                   && dict_paths_ok f (snd kv) (pre ++ [SKey (fst kv)]) && go r
+      | e :: r => negb (f (pre ++ [mk (fst e)])%list)
+                  && dict_paths_ok f (snd e) (pre ++ [mk (fst e)]) && go r
       end.
 
   Lemma dpo_list_nth : forall f pre xs n, dpo_list f pre xs n = true ->
@@ -1069,42 +1357,53 @@ Section Proofs.
     - rewrite Nat.add_succ_r. apply (IH (S n) H2 i y Hn).
   Qed.
 
-  Lemma dpo_dict_in : forall f pre kvs, dpo_dict f pre kvs = true ->
-    forall kv, In kv kvs -> f (pre ++ [SKey (fst kv)])%list = false
-                            /\ dict_paths_ok f (snd kv) (pre ++ [SKey (fst kv)]) = true.
+  Lemma dpo_ent_in : forall (A : Type) (mk : A -> step) f pre (ents : list (A * xvalue)),
+    dpo_ent mk f pre ents = true ->
+    forall e, In e ents -> f (pre ++ [mk (fst e)])%list = false
+                           /\ dict_paths_ok f (snd e) (pre ++ [mk (fst e)]) = true.
   Proof.
-    intros f pre kvs. induction kvs as [|kv0 r IH]; intros H kv Hin; [destruct Hin|].
-    cbn [dpo_dict] in H. fold (dpo_dict f pre) in H. apply andb_true_iff in H. destruct H as [H H3].
+    intros A mk f pre ents. induction ents as [|e0 r IH]; intros H e Hin; [destruct Hin|].
+    cbn [dpo_ent] in H. fold (dpo_ent mk f pre) in H. apply andb_true_iff in H. destruct H as [H H3].
     apply andb_true_iff in H. destruct H as [H1 H2]. apply negb_true_iff in H1.
     destruct Hin as [Heq|Hin]; [subst; auto|auto].
   Qed.
 
+  (* a child keeps the guard; a dictionary entry / an attribute is not at an excluded path *)
   Lemma child_dpo : forall f obj pre s ch, dict_paths_ok f obj pre = true -> child obj s = Some ch ->
-    dict_paths_ok f ch (pre ++ [s]) = true.
+    dict_paths_ok f ch (pre ++ [s]) = true /\ (step_is_idx s = false -> f (pre ++ [s])%list = false).
   Proof.
-    intros f obj pre s ch H Hc. destruct obj as [a|xs|xs|kvs|xs|xs], s as [k|i]; cbn [child] in Hc; try discriminate.
-    - change (dict_paths_ok f (VList xs) pre) with (dpo_list f pre xs 0) in H.
-      apply (dpo_list_nth f pre xs 0 H i ch Hc).
-    - change (dict_paths_ok f (VTuple xs) pre) with (dpo_list f pre xs 0) in H.
-      apply (dpo_list_nth f pre xs 0 H i ch Hc).
-    - change (dict_paths_ok f (VDict kvs) pre) with (dpo_dict f pre kvs) in H.
+    intros f obj pre s ch H Hc.
+    destruct obj as [a|xs|xs|kvs|xs|xs|cl avs|cl avs|cl], s as [k|i|n]; cbn [child] in Hc; try discriminate.
+    - change (dict_paths_ok f (XList xs) pre) with (dpo_list f pre xs 0) in H.
+      split; [|discriminate]. apply (dpo_list_nth f pre xs 0 H i ch Hc).
+    - change (dict_paths_ok f (XTuple xs) pre) with (dpo_list f pre xs 0) in H.
+      split; [|discriminate]. apply (dpo_list_nth f pre xs 0 H i ch Hc).
+    - change (dict_paths_ok f (XDict kvs) pre) with (dpo_ent SKey f pre kvs) in H.
       destruct (find _ kvs) as [kv|] eqn:Hf; [|discriminate]. apply find_key_some in Hf.
-      destruct Hf as [Hin Hk]. cbn in Hc. inversion Hc; subst. apply (dpo_dict_in f pre kvs H kv Hin).
-    - destruct (nth_error xs i); [|discriminate]. inversion Hc. reflexivity.
-    - destruct (nth_error xs i); [|discriminate]. inversion Hc. reflexivity.
+      destruct Hf as [Hin Hk]. cbn in Hc. inversion Hc; subst.
+      destruct (dpo_ent_in atom SKey f pre kvs H kv Hin). auto.
+    - destruct (nth_error xs i); [|discriminate]. inversion Hc. split; [reflexivity|discriminate].
+    - destruct (nth_error xs i); [|discriminate]. inversion Hc. split; [reflexivity|discriminate].
+    - change (dict_paths_ok f (XObj cl avs) pre) with (dpo_ent SAttr f pre avs) in H.
+      destruct (find _ avs) as [av|] eqn:Hf; [|discriminate]. apply find_attr_some in Hf.
+      destruct Hf as [Hin Hk]. cbn in Hc. inversion Hc; subst.
+      destruct (dpo_ent_in pystr SAttr f pre avs H av Hin). auto.
+    - change (dict_paths_ok f (XNamed cl avs) pre) with (dpo_ent SAttr f pre avs) in H.
+      destruct (find _ avs) as [av|] eqn:Hf; [|discriminate]. apply find_attr_some in Hf.
+      destruct Hf as [Hin Hk]. cbn in Hc. inversion Hc; subst.
+      destruct (dpo_ent_in pystr SAttr f pre avs H av Hin). auto.
   Qed.
 
-  Lemma dpo_get : forall f par obj pre kvs k ch,
-    dict_paths_ok f obj pre = true -> get_at obj par = Some (VDict kvs) -> In (k, ch) kvs ->
-    f (pre ++ par ++ [SKey k])%list = false.
+  Lemma dpo_get : forall f par obj pre w s ch,
+    dict_paths_ok f obj pre = true -> get_at obj par = Some w -> child w s = Some ch ->
+    step_is_idx s = false -> f (pre ++ par ++ [s])%list = false.
   Proof.
-    induction par as [|s r IH]; intros obj pre kvs k ch H Hg Hin; cbn [get_at] in Hg.
-    - inversion Hg; subst obj. change (dict_paths_ok f (VDict kvs) pre) with (dpo_dict f pre kvs) in H.
-      apply (dpo_dict_in f pre kvs H (k, ch) Hin).
-    - destruct (child obj s) as [c0|] eqn:Hc; [|discriminate].
-      cbn [app]. replace (pre ++ s :: r ++ [SKey k])%list with ((pre ++ [s]) ++ r ++ [SKey k])%list
+    induction par as [|s0 r IH]; intros obj pre w s ch H Hg Hc Hs; cbn [get_at] in Hg.
+    - inversion Hg; subst obj. cbn [app]. apply (proj2 (child_dpo f w pre s ch H Hc) Hs).
+    - destruct (child obj s0) as [c0|] eqn:Hc0; [|discriminate].
+      cbn [app]. replace (pre ++ s0 :: r ++ [s])%list with ((pre ++ [s0]) ++ r ++ [s])%list
         by (rewrite <- app_assoc; reflexivity).
-      eapply IH; eauto using child_dpo.
+      eapply IH; eauto. apply (proj1 (child_dpo f obj pre s0 c0 H Hc0)).
   Qed.
 
   Lemma vis_prefix : forall par e pre obj tail, vis e pre obj (par ++ tail) = true -> vis false pre obj par = true.
@@ -1119,7 +1418,7 @@ Section Proofs.
       destruct r as [|s' r']; auto. cbn [app is_nil] in Hd2. rewrite orb_true_r in Hd2. discriminate.
   Qed.
 
-  Theorem exclusions_values_partial : forall obj, wf obj = true -> k16_guard obj = true ->
+  Theorem exclusions_values_partial : forall obj, xwf obj = true -> k16_guard obj = true ->
     forall q v, In (EvValue q v) (search obj []) -> vis_doc [] obj q = true.
   Proof.
     intros obj Hwf Hg q v H. apply values_iff in H; auto. destruct H as [_ [_ [Hv _]]].
@@ -1127,23 +1426,21 @@ Section Proofs.
     apply negb_true_iff in H1. apply (vis_implies_doc q false [] obj H1 H2 Hv).
   Qed.
 
-  Theorem exclusions_paths_partial : forall obj, wf obj = true ->
+  Theorem exclusions_paths_partial : forall obj, xwf obj = true ->
     k16_guard obj = true -> k16b_guard obj = true ->
     forall q v, In (EvPath q v) (search obj []) -> vis_doc [] obj q = true.
   Proof.
     intros obj Hwf Hg Hgb q v H. apply paths_iff in H; auto.
-    destruct H as [_ [par [kvs [k [Hq [Hgp [Hin [Hv _]]]]]]]]. subst q.
+    destruct H as [_ [par [w [s [Hq [Hs [Hgp [Hc [Hv _]]]]]]]]]. subst q.
     unfold SearchSpec.k16_guard in Hg. apply andb_true_iff in Hg. destruct Hg as [H1 H2].
     apply negb_true_iff in H1. apply (vis_implies_doc par true [] obj H1 H2) in Hv.
-    apply (vis_doc_snoc par [] obj (SKey k) (VDict kvs) v); auto.
-    - apply child_key_iff; [eapply get_at_wf; eauto|eauto].
-    - cbn [app]. apply (dpo_get _ par obj [] kvs k v Hgb Hgp Hin).
-    - pose proof (dvo_get _ _ _ _ H2 Hgp) as Hd. cbn in Hd. rewrite forallb_forall in Hd.
-      apply Hd in Hin. cbn [snd] in Hin. apply andb_true_iff in Hin. destruct Hin as [Hin _].
-      apply negb_true_iff in Hin. exact Hin.
+    apply (vis_doc_snoc par [] obj s w v); auto.
+    - cbn [app]. apply (dpo_get _ par obj [] w s v Hgb Hgp Hc Hs).
+    - pose proof (dvo_get _ _ _ _ H2 Hgp) as Hd.
+      apply (proj1 (child_dvo_key _ _ _ _ Hs Hd Hc)).
   Qed.
 
-  Theorem complete_doc : forall obj, wf obj = true -> item_excl = false -> atom_item = true ->
+  Theorem complete_doc : forall obj, xwf obj = true -> item_excl = false -> atom_item = true ->
     forall q v, In (q, v) (matches_spec_doc obj) -> In (EvValue q v) (search obj []).
   Proof.
     intros obj Hwf Hi Hai q v H. unfold SearchSpec.matches_spec_doc in H. apply filter_In in H.
@@ -1155,7 +1452,7 @@ Section Proofs.
     rewrite (equals_item_leaf_match v Hai Hm). reflexivity.
   Qed.
 
-  Theorem values_exact_doc : forall obj, wf obj = true -> item_excl = false -> atom_item = true ->
+  Theorem values_exact_doc : forall obj, xwf obj = true -> item_excl = false -> atom_item = true ->
     k16_guard obj = true ->
     forall q v, In (EvValue q v) (search obj []) <-> In (q, v) (matches_spec_doc obj).
   Proof.
@@ -1168,7 +1465,7 @@ Section Proofs.
     destruct (leaf_match v); auto. cbn [orb] in *. apply andb_true_iff in Hm. tauto.
   Qed.
 
-  Theorem paths_exact_doc : forall obj, wf obj = true -> item_excl = false -> atom_item = true ->
+  Theorem paths_exact_doc : forall obj, xwf obj = true -> item_excl = false -> atom_item = true ->
     k16_guard obj = true -> k16b_guard obj = true ->
     forall q v, In (EvPath q v) (search obj []) <-> In (q, v) (paths_spec_doc obj).
   Proof.
@@ -1184,18 +1481,18 @@ Section Proofs.
       apply filter_In. split; auto. cbn [fst snd].
       destruct (entry_parent q) as [par|] eqn:Hep; [|discriminate].
       apply andb_true_iff in H. destruct H as [Hd Hm]. rewrite Hm, andb_true_r.
-      apply entry_parent_iff in Hep. destruct Hep as [k Hq]. subst q.
+      apply entry_parent_iff in Hep. destruct Hep as [k [Hk Hq]]. subst q.
       apply (vis_doc_implies_vis _ _ _ Hai) in Hd. apply vis_prefix in Hd.
       apply in_locations_root in Hl; auto. rewrite get_at_app in Hl.
       destruct (get_at obj par) as [w|] eqn:Hgp; [|discriminate]. cbn [get_at] in Hl.
-      destruct (child w (SKey k)) as [ch|] eqn:Hc; [|discriminate].
+      destruct (child w k) as [ch|] eqn:Hc; [|discriminate].
       apply (vis_enter_container par [] obj w Hai Hd Hgp).
       intros a Ha. subst w. rewrite child_atom in Hc. discriminate.
   Qed.
 
   (* ---------- finding K16f confined ---------- *)
 
-  Theorem no_attr_partial : forall obj, wf obj = true -> obj_searched = false ->
+  Theorem no_attr_partial : forall obj, xwf obj = true -> obj_searched = false ->
     forall q n, ~ In (EvAttr q n) (search obj []).
   Proof.
     intros obj Hwf Hit q n H. apply attrs_iff in H; auto.
@@ -1271,62 +1568,62 @@ Definition no_re : pystr -> bool := fun _ => false.
 
 (* K16: DeepSearch({'a':1.5,'b':'x1.5'}, '1.5', exclude_types=[float], strict_checking=False)
    reports root['a'], a float *)
-Definition k16_cfg := mkConfig false false false false [] [TFloat].
-Definition k16_obj := VDict [(AStr (s2p "a"), VAtom (AHalf 3)); (AStr (s2p "b"), VAtom (AStr (s2p "x1.5")))].
+Definition k16_cfg := mkConfig false false false false [] [TyB TFloat].
+Definition k16_obj := XDict [(AStr (s2p "a"), XAtom (AHalf 3)); (AStr (s2p "b"), XAtom (AStr (s2p "x1.5")))].
 Definition k16_item := VAtom (AStr (s2p "1.5")).
 
 Theorem exclusions_types_refuted :
   exists evs q v,
-    wf k16_obj = true /\
+    xwf k16_obj = true /\
     deep_search lower id_repr no_re no_re [] [] [] k16_cfg k16_item k16_obj = ROk evs /\
-    In (EvValue q v) evs /\ ty_excl k16_cfg (type_of v) = true.
+    In (EvValue q v) evs /\ ty_excl k16_cfg (xtype_of v) = true.
 Proof.
-  eexists. exists [SKey (AStr (s2p "a"))], (VAtom (AHalf 3)).
+  eexists. exists [SKey (AStr (s2p "a"))], (XAtom (AHalf 3)).
   split; [reflexivity|]. split; [vm_compute; reflexivity|]. split; [left; reflexivity|reflexivity].
 Qed.
 
 (* K16 (second face): DeepSearch([1], '1', exclude_types=[str], strict_checking=False) reports
    nothing although root[0] matches and is not of an excluded type *)
-Definition k16c_cfg := mkConfig false false false false [] [TStr].
-Definition k16c_obj := VList [VAtom (AInt 1)].
+Definition k16c_cfg := mkConfig false false false false [] [TyB TStr].
+Definition k16c_obj := XList [XAtom (AInt 1)].
 Definition k16c_item := VAtom (AStr (s2p "1")).
 
 Theorem complete_refuted :
   exists cs it evs q v,
-    wf k16c_obj = true /\
+    xwf k16c_obj = true /\
     prepare lower id_repr k16c_cfg k16c_item = PItem cs it /\
     deep_search lower id_repr no_re no_re [] [] [] k16c_cfg k16c_item k16c_obj = ROk evs /\
     In (q, v) (matches_spec_doc lower id_repr no_re no_re k16c_cfg cs it k16c_obj) /\
     ~ In (EvValue q v) evs.
 Proof.
-  exists false, (EAtom (AStr (s2p "1"))). eexists. exists [SIdx 0], (VAtom (AInt 1)).
+  exists false, (EAtom (AStr (s2p "1"))). eexists. exists [SIdx 0], (XAtom (AInt 1)).
   split; [reflexivity|]. split; [reflexivity|]. split; [vm_compute; reflexivity|].
   split; [vm_compute; left; reflexivity|]. intros [].
 Qed.
 
 (* K16b: DeepSearch({'a': 1}, 'a', exclude_paths=["root['a']"]) reports root['a'] under matched_paths *)
 Definition k16b_cfg := mkConfig false false false true [s2p "root['a']"] [].
-Definition k16b_obj := VDict [(AStr (s2p "a"), VAtom (AInt 1))].
+Definition k16b_obj := XDict [(AStr (s2p "a"), XAtom (AInt 1))].
 Definition k16b_item := VAtom (AStr (s2p "a")).
 
 Theorem exclusions_paths_refuted :
   exists evs q v,
-    wf k16b_obj = true /\
+    xwf k16b_obj = true /\
     deep_search lower id_repr no_re no_re [] [] [] k16b_cfg k16b_item k16b_obj = ROk evs /\
     In (EvPath q v) evs /\ path_excl id_repr no_re k16b_cfg q = true.
 Proof.
-  eexists. exists [SKey (AStr (s2p "a"))], (VAtom (AInt 1)).
+  eexists. exists [SKey (AStr (s2p "a"))], (XAtom (AInt 1)).
   split; [reflexivity|]. split; [vm_compute; reflexivity|]. split; [left; reflexivity|vm_compute; reflexivity].
 Qed.
 
 (* K16f: DeepSearch({None: 'a'}, None) reports root[None].capitalize, which is not a location *)
 Definition k16f_cfg := mkConfig false false false true [] [].
-Definition k16f_obj := VDict [(ANone, VAtom (AStr (s2p "a")))].
+Definition k16f_obj := XDict [(ANone, XAtom (AStr (s2p "a")))].
 
 Definition k16f_attrs := [s2p "capitalize"].
 Theorem paths_only_locations_refuted :
   exists evs q n,
-    wf k16f_obj = true /\
+    xwf k16f_obj = true /\
     deep_search lower id_repr no_re no_re [] k16f_attrs [] k16f_cfg (VAtom ANone) k16f_obj = ROk evs /\
     In (EvAttr q n) evs.
 Proof.
@@ -1335,61 +1632,61 @@ Proof.
 Qed.
 
 (* K16d (fixed in /repo by 9553299, 49764d9): DeepSearch([b'abc'], 'a') no longer raises *)
-Definition k16d_obj := VList [VAtom (ABytes (s2p "abc")); VAtom (AStr (s2p "abc"))].
+Definition k16d_obj := XList [XAtom (ABytes (s2p "abc")); XAtom (AStr (s2p "abc"))].
 Definition k16d_item := VAtom (AStr (s2p "a")).
 Example str_in_bytes_not_found :
   deep_search lower id_repr no_re no_re [] [] [] k16f_cfg k16d_item k16d_obj
-  = ROk [EvValue [SIdx 1] (VAtom (AStr (s2p "abc")))].
+  = ROk [EvValue [SIdx 1] (XAtom (AStr (s2p "abc")))].
 Proof. vm_compute. reflexivity. Qed.
 
 (* K16i (fixed in /repo by bcd9dc1): a bytes pattern is no longer applied to the text of a number *)
 Definition k16i_cfg := mkConfig false false true false [] [].
-Definition k16i_obj := VList [VAtom (AInt 1); VAtom (ABytes (s2p "1"))].
+Definition k16i_obj := XList [XAtom (AInt 1); XAtom (ABytes (s2p "1"))].
 Definition k16i_item := VAtom (ABytes (s2p "1")).
 Definition k16i_re (s : pystr) : bool := pystr_eqb s (s2p "1").
 Example bytes_pattern_on_numbers :
   deep_search lower id_repr k16i_re no_re [] [] [] k16i_cfg k16i_item k16i_obj
-  = ROk [EvValue [SIdx 1] (VAtom (ABytes (s2p "1")))].
+  = ROk [EvValue [SIdx 1] (XAtom (ABytes (s2p "1")))].
 Proof. vm_compute. reflexivity. Qed.
 
 (* K16h: a container item is found only as an ITEM of a list / tuple / set:
    DeepSearch({'a': [1, 2]}, [1, 2]) == {}  although root['a'] == [1, 2];
    DeepSearch([[1, 2]], [1, 2]) reports root[0] *)
 Definition k16h_item := VList [VAtom (AInt 1); VAtom (AInt 2)].
-Definition k16h_obj := VDict [(AStr (s2p "a"), k16h_item)].
+Definition k16h_obj := XDict [(AStr (s2p "a"), inj k16h_item)].
 Definition k16h_text := s2p "[1, 2]".      (* str(item) *)
-Definition k16h_obj2 := VList [VList [VAtom (AHalf 2); VAtom (AInt 2)]].
+Definition k16h_obj2 := XList [XList [XAtom (AHalf 2); XAtom (AInt 2)]].
 Theorem complete_container_refuted :
   exists cs it evs q v,
-    wf k16h_obj = true /\
+    xwf k16h_obj = true /\
     prepare lower id_repr k16f_cfg k16h_item = PItem cs it /\ item_excl k16f_cfg it = false /\
     deep_search lower id_repr no_re no_re k16h_text [] [] k16f_cfg k16h_item k16h_obj = ROk evs /\
     In (q, v) (matches_spec_doc lower id_repr no_re no_re k16f_cfg cs it k16h_obj) /\
     ~ In (EvValue q v) evs.
 Proof.
-  exists true, (EVal k16h_item). eexists. exists [SKey (AStr (s2p "a"))], k16h_item.
+  exists true, (EVal k16h_item). eexists. exists [SKey (AStr (s2p "a"))], (inj k16h_item).
   split; [reflexivity|]. split; [reflexivity|]. split; [reflexivity|]. split; [vm_compute; reflexivity|].
   split; [vm_compute; auto|]. intros [].
 Qed.
 Example container_item_found_in_list :
   deep_search lower id_repr no_re no_re k16h_text [] [] k16f_cfg k16h_item k16h_obj2
-  = ROk [EvValue [SIdx 0] (VList [VAtom (AHalf 2); VAtom (AInt 2)])].
+  = ROk [EvValue [SIdx 0] (XList [XAtom (AHalf 2); XAtom (AInt 2)])].
 Proof. vm_compute. reflexivity. Qed.
 
 (* the guards are satisfiable by non-trivial inputs: an object with dictionaries, lists and
    excluded-type values placed in lists, an excluded list position *)
-Definition guard_cfg := mkConfig false false false false [s2p "root['k'][0]"] [TFloat].
+Definition guard_cfg := mkConfig false false false false [s2p "root['k'][0]"] [TyB TFloat].
 Definition guard_obj :=
-  VDict [(AStr (s2p "k"), VList [VAtom (AHalf 3); VAtom (AStr (s2p "x1.5")); VAtom (AHalf 3)]);
-         (AStr (s2p "1.5"), VAtom (AStr (s2p "1.5")))].
+  XDict [(AStr (s2p "k"), XList [XAtom (AHalf 3); XAtom (AStr (s2p "x1.5")); XAtom (AHalf 3)]);
+         (AStr (s2p "1.5"), XAtom (AStr (s2p "1.5")))].
 Definition guard_item := AStr (s2p "1.5").
 Definition guard_item_v := VAtom guard_item.
 Definition guard_evs :=
-  [EvValue [SKey (AStr (s2p "k")); SIdx 1] (VAtom (AStr (s2p "x1.5")));
-   EvPath [SKey (AStr (s2p "1.5"))] (VAtom (AStr (s2p "1.5")));
-   EvValue [SKey (AStr (s2p "1.5"))] (VAtom (AStr (s2p "1.5")))].
+  [EvValue [SKey (AStr (s2p "k")); SIdx 1] (XAtom (AStr (s2p "x1.5")));
+   EvPath [SKey (AStr (s2p "1.5"))] (XAtom (AStr (s2p "1.5")));
+   EvValue [SKey (AStr (s2p "1.5"))] (XAtom (AStr (s2p "1.5")))].
 Example guards_satisfiable :
-  wf guard_obj = true /\ k16_guard guard_cfg guard_obj = true /\
+  xwf guard_obj = true /\ k16_guard guard_cfg guard_obj = true /\
   k16b_guard id_repr no_re guard_cfg guard_obj = true /\
   item_excl guard_cfg (EAtom guard_item) = false /\
   deep_search lower id_repr no_re no_re [] [] [] guard_cfg guard_item_v guard_obj = ROk guard_evs.
@@ -1437,7 +1734,7 @@ Qed.
 
 Section Dicts.
   Variable brepr : pystr -> pystr.
-  Let vstep := fun (d : list (pystr * value)) (e : event) =>
+  Let vstep := fun (d : list (pystr * xvalue)) (e : event) =>
                  match e with EvValue p v => upsert (render brepr p) v d | _ => d end.
 
   Lemma mv_sound_gen : forall evs d t v, In (t, v) (fold_left vstep evs d) ->
@@ -1445,7 +1742,7 @@ Section Dicts.
   Proof.
     induction evs as [|e r IH]; intros d t v H; cbn [fold_left] in H; auto.
     apply IH in H. destruct H as [H|[q [H1 H2]]].
-    - destruct e as [p w|p w|p n]; cbn [vstep] in H; auto.
+    - destruct e as [p w|p w|p n|p]; cbn [vstep] in H; auto.
       apply upsert_in in H. destruct H as [H|H]; auto. inversion H; subst.
       right. exists p. split; auto. left. auto.
     - right. exists q. split; auto. right. auto.
@@ -1458,7 +1755,7 @@ Section Dicts.
     induction evs as [|e r IH]; intros d; cbn [fold_left].
     - split; [eauto|intros q v []].
     - destruct (IH (vstep d e)) as [IH1 IH2]. split.
-      + intros t v H. destruct e as [p w|p w|p n]; cbn [vstep] in *; eauto.
+      + intros t v H. destruct e as [p w|p w|p n|p]; cbn [vstep] in *; eauto.
         destruct (upsert_keeps_key _ (render brepr p) w d t v H) as [v'' Hv]. eauto.
       + intros q v [H|H]; [|eauto]. subst e. cbn [vstep] in *.
         apply (IH1 (render brepr q) v). apply upsert_has.
@@ -1475,6 +1772,16 @@ Section Dicts.
     - intros t v H. apply mv_sound_gen in H. destruct H as [[]|H]. exact H.
     - intros q v H. apply (proj2 (mv_keys_gen evs [])) in H. exact H.
   Qed.
+
+  (* the `unprocessed` list: exactly the texts of the EvUnproc events *)
+  Theorem unprocessed_list_spec : forall evs t,
+    In t (unprocessed brepr evs) <-> exists q, render brepr q = t /\ In (EvUnproc q) evs.
+  Proof.
+    intros evs t. unfold unprocessed. rewrite in_flat_map. split.
+    - intros [e [He H]]. destruct e as [p w|p w|p n|p]; try destruct H as [H|[]]; try destruct H.
+      exists p. split; auto.
+    - intros [q [Hq He]]. exists (EvUnproc q). split; auto. left. exact Hq.
+  Qed.
 End Dicts.
 
 (* ---------- final statements, on the constructor ---------- *)
@@ -1487,17 +1794,17 @@ Section Final.
   Variable sa ba : list pystr.
   Variable c : config.
   Variable item : value.
-  Variable obj : value.
+  Variable obj : xvalue.
   Variable cs : bool.
   Variable it : eitem.
   Variable evs : list event.
-  Hypothesis Hwf : wf obj = true.
+  Hypothesis Hwf : xwf obj = true.
   Hypothesis Hprep : prepare slower brepr c item = PItem cs it.
   Hypothesis Hrun : deep_search slower brepr re_search excl_re re_text sa ba c item obj = ROk evs.
 
   Lemma final_evs : evs = search slower brepr re_search excl_re re_text sa ba c cs it obj [].
   Proof.
-    destruct (deep_search_ok _ _ _ _ _ _ _ _ _ _ Hrun) as [cs' [it' [H1 H2]]].
+    destruct (deep_search_ok _ _ _ _ _ _ _ _ _ _ _ Hrun) as [cs' [it' [H1 H2]]].
     rewrite Hprep in H1. inversion H1; subst. reflexivity.
   Qed.
 
@@ -1538,6 +1845,28 @@ Section Final.
   Proof.
     intros a Ha Hi q n. rewrite final_evs. apply no_attr_partial; auto.
     subst item. eapply prepare_unsearched; eauto.
+  Qed.
+
+  Lemma final_unprocessed_exact : forall q,
+    In (EvUnproc q) evs <-> In q (unprocessed_spec slower brepr excl_re c cs it obj).
+  Proof. intros q. rewrite final_evs. apply unprocessed_exact. exact Hwf. Qed.
+
+  (* nothing is reported at or below an object whose attributes cannot be read *)
+  Lemma final_opaque_silent : forall q cl, get_at obj q = Some (XOpaque cl) ->
+    (forall v, ~ In (EvValue q v) evs) /\
+    (forall r s v, ~ In (EvValue (q ++ s :: r)%list v) evs) /\ (forall r s v, ~ In (EvPath (q ++ s :: r)%list v) evs).
+  Proof.
+    intros q cl Hg. rewrite final_evs. split; [|split].
+    - intros v H. apply values_iff in H; auto. destruct H as [_ [Hg' [_ Hm]]].
+      rewrite Hg in Hg'. inversion Hg'; subst v. unfold match_at in Hm. cbn [leaf_match orb] in Hm.
+      apply andb_true_iff in Hm. destruct Hm as [_ Hm]. unfold shortcut, thing_eq_item in Hm.
+      apply andb_true_iff in Hm. destruct Hm as [_ Hm]. destruct it as [a|b|w]; discriminate.
+    - intros r s v H. apply values_iff in H; auto. destruct H as [_ [Hg' _]].
+      rewrite get_at_app, Hg in Hg'. cbn [get_at] in Hg'. destruct s; discriminate.
+    - intros r s v H. apply paths_exact in H; auto. unfold paths_spec in H.
+      destruct (item_excl c it); [destruct H|]. apply filter_In in H. destruct H as [H _].
+      apply in_locations_root in H; auto. cbn [fst snd] in H.
+      rewrite get_at_app, Hg in H. cbn [get_at] in H. destruct s; discriminate.
   Qed.
 
   Lemma final_exclusions_partial : k16_guard c obj = true ->
